@@ -1,38 +1,44 @@
-//! Family `dispatch` (C03): pipelined request sequences through the real blocking TCP server, async TCP
-//! server and WebSocket server (inline and off-reader routes); raw clients with an independent frame
-//! codec; per-request handler outcomes are probed in-process and handed to the model.
+//! Family `dispatch` (C03, also run by C01): pipelined request sequences through the real blocking TCP server,
+//! async TCP server and WebSocket server (inline and off-reader routes), each once with a middleware-wrapped router
+//! and once with a bare router (so both the owned and the borrowing entry point of every built-in handler are
+//! reached on the wire); raw clients with an independent frame codec; per-request handler outcomes are probed
+//! in-process and handed to the model; an independent expectation of every built-in handler kind's outcome
+//! (accepted body formats, decodability of the raw bytes, the registered closure's result) is computed by the
+//! harness itself from the route table it registered.
 use futures_util::{SinkExt, StreamExt};
 use repe::constants::ErrorCode;
-use repe::server::{HandlerErased, Middleware, Next};
+use repe::server::{HandlerErased, JsonTypedHandler, Middleware, Next};
 use repe::{CallContext, Message, MessageView, Registry, RepeError, Router};
 use repe_verif_harness::frames::{RawFrame, RawHeader};
 use repe_verif_harness::*;
 use serde::{Deserialize, Serialize};
 use serde_json::{json, Value};
-use std::collections::BTreeMap;
+use std::collections::{BTreeMap, HashSet};
 use std::io::{Read, Write};
-use std::sync::{Arc, Mutex};
+use std::sync::{Arc, Mutex, RwLock};
 use std::time::{Duration, Instant};
 
-const WATCHDOG: Duration = Duration::from_secs(20);
+const WATCHDOG: Duration = Duration::from_secs(25);
 /// how long a response may take to arrive with no further request sent before that is reported
-const GRACE: Duration = Duration::from_secs(6);
+const GRACE: Duration = Duration::from_secs(8);
 
 #[derive(Clone, Default)]
 struct Counters {
+    /// middleware level (wrapped routers only): handler pipeline entered, keyed by hex(query)
     started: Arc<Mutex<BTreeMap<String, u64>>>,
     done: Arc<Mutex<u64>>,
+    /// closure level (every router): the registered closure ran, keyed by route name
     closures: Arc<Mutex<BTreeMap<String, u64>>>,
 }
 impl Counters {
     fn closure(&self, k: &str) {
         *self.closures.lock().unwrap().entry(k.to_string()).or_insert(0) += 1;
     }
-    fn total_started(&self) -> u64 {
-        self.started.lock().unwrap().values().sum()
-    }
     fn total_done(&self) -> u64 {
         *self.done.lock().unwrap()
+    }
+    fn total_closures(&self) -> u64 {
+        self.closures.lock().unwrap().values().sum()
     }
 }
 
@@ -47,7 +53,22 @@ impl Middleware for CountingMw {
     }
 }
 
-#[derive(Serialize, Deserialize, Debug)]
+/// Closure-form middleware (the blanket `impl Middleware for F`): refuses with `Err`, answers by itself, is slow,
+/// or forwards.
+fn gate_mw<'a>(req: &'a Message, next: Next<'a>) -> Result<Message, RepeError> {
+    if req.body.starts_with(b"#mw-err") {
+        return Err(RepeError::ServerError { code: ErrorCode::ResourceExhausted, message: "gate refused".into() });
+    }
+    if req.body.starts_with(b"#mw-own") {
+        return Ok(Message::builder().id(req.header.id).query_format_code(1).body_utf8("short").build());
+    }
+    if req.query == b"/slow" {
+        std::thread::sleep(Duration::from_millis(8));
+    }
+    next.run(req)
+}
+
+#[derive(Serialize, Deserialize, Debug, Clone)]
 struct TIn {
     a: i64,
     b: String,
@@ -73,7 +94,10 @@ impl Device {
     }
 }
 
-/// Custom erased handler that sets its own response query and unusual header fields.
+const OWN_QUERY: &[u8] = b"/own/query";
+
+/// Custom erased handler: refuses with `Err`, leaves the response query empty (the dispatch layer must echo), or sets
+/// its own response query; unusual header fields either way.
 struct Custom(Counters);
 impl HandlerErased for Custom {
     fn handle(&self, req: &Message) -> Result<Message, RepeError> {
@@ -81,13 +105,111 @@ impl HandlerErased for Custom {
         if req.body.first() == Some(&b'!') {
             return Err(RepeError::ServerError { code: ErrorCode::Timeout, message: "custom refused".into() });
         }
-        let mut m = Message::builder().id(req.header.id).query_str("/own/query").query_format_code(1).body_bytes(req.body.clone()).body_format_code(1234).build();
+        let b = Message::builder().id(req.header.id).query_format_code(1).body_bytes(req.body.clone()).body_format_code(1234);
+        let mut m = if req.body.first() == Some(&b'e') { b.build() } else { b.query_bytes(OWN_QUERY.to_vec()).build() };
         m.header.reserved = 0xABCD;
         Ok(m)
     }
 }
 
-fn make_router(c: &Counters) -> Router {
+struct Adapter(Counters);
+impl JsonTypedHandler for Adapter {
+    type In = TIn;
+    type Out = TOut;
+    fn call(&self, i: TIn) -> Result<TOut, (ErrorCode, String)> {
+        self.0.closure("/adapter");
+        Ok(TOut { sum: i.a.wrapping_sub(1), echo: i.b })
+    }
+}
+
+// ------------------------------------------------------------------------------------------
+// the route table as this harness registers it (the independent side of every lookup / outcome oracle)
+// ------------------------------------------------------------------------------------------
+#[derive(Clone, Copy, PartialEq, Eq, Debug)]
+enum HK {
+    Json,
+    JsonCtx,
+    Typed,
+    TypedCtx,
+    Slice,
+    SliceRef,
+    Adapter,
+    Custom,
+    Registry,
+    Struct,
+}
+impl HK {
+    fn token(self) -> &'static str {
+        match self {
+            HK::Json => "json",
+            HK::JsonCtx => "jsonctx",
+            HK::Typed => "typed",
+            HK::TypedCtx => "typedctx",
+            HK::Slice => "slice",
+            HK::SliceRef => "sliceref",
+            HK::Adapter => "adapter",
+            HK::Custom => "custom",
+            HK::Registry => "registry",
+            HK::Struct => "struct",
+        }
+    }
+}
+#[derive(Clone, Copy, Debug)]
+struct RouteSpec {
+    path: &'static str,
+    hk: HK,
+    /// closure variant within the kind
+    var: u8,
+    blocking: bool,
+}
+const fn rs(path: &'static str, hk: HK, var: u8, blocking: bool) -> RouteSpec {
+    RouteSpec { path, hk, var, blocking }
+}
+const NONASCII: &str = "/js\u{f6}n/\u{7801}";
+const EXACT: &[RouteSpec] = &[
+    rs("/json", HK::Json, 0, false),
+    rs("/alias", HK::Json, 0, false),
+    rs(NONASCII, HK::Json, 0, false),
+    rs("/slow", HK::Json, 1, false),
+    rs("/__end", HK::Json, 2, false),
+    rs("/json_b", HK::Json, 0, true),
+    rs("/slow_b", HK::Json, 3, true),
+    rs("/panic_b", HK::Json, 4, true),
+    rs("/json_ctx", HK::JsonCtx, 0, false),
+    rs("/json_ctx_b", HK::JsonCtx, 0, true),
+    rs("/push_ctx", HK::JsonCtx, 1, false),
+    rs("/typed", HK::Typed, 0, false),
+    rs("/typed_b", HK::Typed, 0, true),
+    rs("/typed_beve", HK::Typed, 1, false),
+    rs("/typed_utf8", HK::Typed, 2, false),
+    rs("/typed_raw", HK::Typed, 3, false),
+    rs("/typed_ctx", HK::TypedCtx, 0, false),
+    rs("/typed_ctx_b", HK::TypedCtx, 0, true),
+    rs("/slice", HK::Slice, 0, false),
+    rs("/slice_ref", HK::SliceRef, 0, false),
+    rs("/adapter", HK::Adapter, 0, false),
+    rs("/custom", HK::Custom, 0, false),
+];
+const MOUNTS: &[(&str, HK)] = &[("/reg", HK::Registry), ("/de", HK::Registry), ("/re", HK::Registry), ("/dev", HK::Struct), ("/devrw", HK::Struct)];
+
+/// The lookup rule the property states (exact path wins; a mount gets its prefix itself or an extension at a '/'
+/// boundary; registries before structs, in registration order) — independent of `Router::get`.
+fn expected_route(path: &str) -> Option<RouteSpec> {
+    if let Some(r) = EXACT.iter().find(|r| r.path == path) {
+        return Some(*r);
+    }
+    let hit = |m: &str| path == m || (path.starts_with(m) && path.as_bytes().get(m.len()) == Some(&b'/'));
+    for want in [HK::Registry, HK::Struct] {
+        for (m, hk) in MOUNTS {
+            if *hk == want && hit(m) {
+                return Some(RouteSpec { path: m, hk: *hk, var: 0, blocking: false });
+            }
+        }
+    }
+    None
+}
+
+fn make_router(c: &Counters, wrapped: bool) -> Router {
     let reg = Arc::new(Registry::new());
     reg.register_value("/a", json!({"b": 1, "list": [1, 2, 3]})).unwrap();
     reg.register_value("/s", json!("text")).unwrap();
@@ -108,6 +230,9 @@ fn make_router(c: &Counters) -> Router {
         let c = c.clone();
         move |v: Value| {
             c.closure(name);
+            if name == "/slow" {
+                std::thread::sleep(Duration::from_millis(6));
+            }
             if v.get("fail").is_some() {
                 return Err((ErrorCode::ApplicationErrorBase, format!("{} failed", name)));
             }
@@ -118,6 +243,12 @@ fn make_router(c: &Counters) -> Router {
         let c = c.clone();
         move |ctx: &CallContext, v: Value| {
             c.closure(name);
+            if name == "/push_ctx" {
+                // re-enters the connection object: pushes a notify to the calling peer while the request is handled
+                if let Some(p) = ctx.peer() {
+                    let _ = p.send_notify("/progress", repe::NotifyBody::Json(b"1".to_vec()));
+                }
+            }
             Ok(json!({"route": name, "method": ctx.method(), "got": v}))
         }
     };
@@ -131,6 +262,13 @@ fn make_router(c: &Counters) -> Router {
             Ok(TOut { sum: i.a.wrapping_mul(2), echo: i.b })
         }
     };
+    let mktfmt = |name: &'static str, fmt: repe::BodyFormat, c: &Counters| {
+        let c = c.clone();
+        move |i: TIn| -> Result<repe::TypedResponse<TOut>, (ErrorCode, String)> {
+            c.closure(name);
+            Ok(repe::TypedResponse::new(TOut { sum: i.a, echo: i.b }, fmt))
+        }
+    };
     let mktctx = |name: &'static str, c: &Counters| {
         let c = c.clone();
         move |_ctx: &CallContext, i: TIn| -> Result<TOut, (ErrorCode, String)> {
@@ -140,39 +278,68 @@ fn make_router(c: &Counters) -> Router {
     };
     let c_sl = c.clone();
     let c_slr = c.clone();
-    let c_tb = c.clone();
-    let (router, _dev) = Router::new()
+    let c_end = c.clone();
+    let c_slowb = c.clone();
+    let c_panic = c.clone();
+    let mut router = Router::new()
         .with_json("/json", mk("/json", c))
-        .with_json("/__end", |_v| Ok(json!("end")))
-        .with_typed::<TIn, TOut, _>("/typed", mkt("/typed", c))
-        .with_typed::<TIn, TOut, _>("/typed_beve", move |i: TIn| -> Result<repe::TypedResponse<TOut>, (ErrorCode, String)> {
-            c_tb.closure("/typed_beve");
-            Ok(repe::TypedResponse::beve(TOut { sum: i.a, echo: i.b }))
+        .with("/alias", mk("/alias", c))
+        .with_json(NONASCII, mk(NONASCII, c))
+        .with_json("/slow", mk("/slow", c))
+        .with_json("/__end", move |_v| {
+            c_end.closure("/__end");
+            Ok(json!("end"))
         })
+        .with_typed::<TIn, TOut, _>("/typed", mkt("/typed", c))
+        .with_typed::<TIn, TOut, _>("/typed_beve", mktfmt("/typed_beve", repe::BodyFormat::Beve, c))
         .with_json_ctx("/json_ctx", mkctx("/json_ctx", c))
-        .with_typed_ctx::<TIn, TOut, _>("/typed_ctx", mktctx("/typed_ctx", c))
+        .with_registry("/reg", reg)
         .with_typed_slice::<f64, f64, _>("/slice", move |v: Vec<f64>| {
             c_sl.closure("/slice");
             Ok(v.iter().map(|x| x * 2.0).collect())
-        })
+        });
+    // the counting middleware is registered in place, after some routes and mounts and before the others
+    if wrapped {
+        router.register_middleware(CountingMw(c.clone()));
+    }
+    router.register_registry("/re", reg_re);
+    let (router, _dev) = router
+        .with_typed::<TIn, TOut, _>("/typed_utf8", mktfmt("/typed_utf8", repe::BodyFormat::Utf8, c))
+        .with_typed::<TIn, TOut, _>("/typed_raw", mktfmt("/typed_raw", repe::BodyFormat::RawBinary, c))
+        .with_json_ctx("/push_ctx", mkctx("/push_ctx", c))
+        .with_typed_ctx::<TIn, TOut, _>("/typed_ctx", mktctx("/typed_ctx", c))
         .with_typed_slice_ref::<u32, u32, _>("/slice_ref", move |v: &[u32]| {
             c_slr.closure("/slice_ref");
             Ok(v.iter().rev().cloned().collect())
         })
-        .with_registry("/reg", reg)
+        .with_handler("/adapter", Adapter(c.clone()))
         .with_registry("/de", reg_de)
-        .with_registry("/re", reg_re)
         .with_erased_handler("/custom", Arc::new(Custom(c.clone())))
         .with_json_blocking("/json_b", mk("/json_b", c))
-        .with_json_blocking("/slow_b", |_v| {
+        .with_json_blocking("/slow_b", move |_v| {
+            c_slowb.closure("/slow_b");
             std::thread::sleep(Duration::from_millis(150));
             Ok(json!("slow"))
+        })
+        .with_json_blocking("/panic_b", move |v| {
+            c_panic.closure("/panic_b");
+            match v.get("p").and_then(|p| p.as_str()) {
+                Some("str") => panic!("static str payload"),
+                Some("string") => panic!("{}", format!("string payload {}", 7)),
+                Some("any") => std::panic::panic_any(42u32),
+                _ => Ok(json!("calm")),
+            }
         })
         .with_json_ctx_blocking("/json_ctx_b", mkctx("/json_ctx_b", c))
         .with_typed_blocking::<TIn, TOut, _>("/typed_b", mkt("/typed_b", c))
         .with_typed_ctx_blocking::<TIn, TOut, _>("/typed_ctx_b", mktctx("/typed_ctx_b", c))
         .with_struct("/dev", Device { gain: 3, label: "x".into() });
-    router.with_middleware(CountingMw(c.clone()))
+    let router = router.with_struct_shared::<Device, RwLock<Device>>("/devrw", Arc::new(RwLock::new(Device { gain: 3, label: "x".into() })));
+    if wrapped {
+        router.with_middleware(gate_mw)
+    } else {
+        router
+    }
 }
 
 // ------------------------------------------------------------------------------------------
@@ -183,20 +350,346 @@ struct ReqSpec {
     h: RawHeader,
     query: Vec<u8>,
     body: Vec<u8>,
+    /// WebSocket only: a Ping frame precedes this request
+    ping: bool,
+}
+impl ReqSpec {
+    fn wire(&self) -> Vec<u8> {
+        RawFrame { h: self.h.clone(), query: self.query.clone(), body: self.body.clone() }.to_vec()
+    }
 }
 
-fn gen_request(r: &mut Rng, id: u64) -> ReqSpec {
-    let paths: &[&[u8]] = &[
-        b"/json", b"/json", b"/typed", b"/typed_beve", b"/json_ctx", b"/typed_ctx", b"/slice", b"/slice_ref", b"/reg/a", b"/reg/a/b",
-        b"/reg/a/list/1", b"/reg/f", b"/reg/s", b"/reg/missing", b"/reg", b"/reg/a~1b", b"/custom", b"/json_b", b"/json_ctx_b", b"/typed_b",
-        b"/typed_ctx_b", b"/de/v", b"/de", b"/dex", b"/re/v", b"/regx", b"/devx", b"/dev/gain", b"/dev/label", b"/dev/hello", b"/dev/add", b"/dev", b"/dev/nope", b"/nope", b"", b"/", b"json",
-        b"/json/", b"/jsonx", b"/\xff\xfe", b"\xc3\x28", b"/json\x00",
-    ];
-    let query = r.pick(paths).to_vec();
-    let version = if r.chance(9, 10) { 1 } else { *r.pick(&[0u8, 2, 255]) };
-    let notify = match r.below(10) { 0 | 1 | 2 => 1u8, 3 => *r.pick(&[2u8, 255]), _ => 0 };
-    let qfmt = if r.chance(9, 10) { 1u16 } else { *r.pick(&[0u16, 2, 65535]) };
-    let (bfmt, body): (u16, Vec<u8>) = match r.below(13) {
+/// Parameters of a whole sequence (recorded on its `inv` op line so a replay is exact).
+#[derive(Clone, Copy, Debug, Default)]
+struct SeqParams {
+    pressure: bool,
+    /// TCP clients write the pipelined bytes in chunks of this size (0 = one write)
+    chunk: usize,
+}
+
+// ---- independent BEVE typed-array codec (header byte, compressed size, little-endian payload) ----------
+fn beve_size(n: usize, out: &mut Vec<u8>) {
+    if n < 64 {
+        out.push((n as u8) << 2);
+    } else if n < 16384 {
+        out.extend_from_slice(&(((n as u16) << 2) | 1).to_le_bytes());
+    } else {
+        out.extend_from_slice(&(((n as u32) << 2) | 2).to_le_bytes());
+    }
+}
+fn enc_f64s(v: &[f64]) -> Vec<u8> {
+    let mut o = vec![0x64u8]; // typed array, float, 8 bytes
+    beve_size(v.len(), &mut o);
+    for x in v {
+        o.extend_from_slice(&x.to_bits().to_le_bytes());
+    }
+    o
+}
+fn enc_u32s(v: &[u32]) -> Vec<u8> {
+    let mut o = vec![0x54u8]; // typed array, unsigned, 4 bytes
+    beve_size(v.len(), &mut o);
+    for x in v {
+        o.extend_from_slice(&x.to_le_bytes());
+    }
+    o
+}
+
+// ---- independent expectation of a dispatched request's outcome ---------------------------------------
+/// How the request body fares against the handler kind's documented decoding rule.
+#[derive(Clone, Copy, PartialEq, Eq, Debug)]
+enum DecClass {
+    /// accepted format, decodable bytes (or: kind does not decode)
+    Ok,
+    /// accepted format, undecodable bytes
+    Bad,
+    /// body format the kind does not accept
+    Fmt,
+}
+#[derive(Clone, PartialEq, Debug)]
+enum Exp {
+    /// error response with this code
+    Ec(u32),
+    /// success response with this body format and body
+    Ok { bfmt: u16, body: Vec<u8> },
+    /// decodes fine; the result depends on registry / struct state (no independent expectation)
+    Stateful,
+}
+#[derive(Clone, Debug)]
+struct Outcome {
+    dec: DecClass,
+    exp: Exp,
+    /// the registered closure runs (exactly once) for this request
+    closure: Option<&'static str>,
+    /// `ok` | `err:<code>` | `any`: the closure's result class, for the model
+    cl: String,
+}
+
+fn dec_value(bfmt: u16, body: &[u8]) -> Option<Option<Value>> {
+    match bfmt {
+        2 | 3 => Some(serde_json::from_slice::<Value>(body).ok()),
+        1 => Some(beve::from_slice::<Value>(body).ok()),
+        _ => None,
+    }
+}
+fn dec_tin(bfmt: u16, body: &[u8]) -> Option<Option<TIn>> {
+    match bfmt {
+        2 | 3 => Some(serde_json::from_slice::<TIn>(body).ok()),
+        1 => Some(beve::from_slice::<TIn>(body).ok()),
+        _ => None,
+    }
+}
+fn tout(sum: i64, echo: String, fmt: u16) -> Exp {
+    let t = TOut { sum, echo };
+    let body = if fmt == 1 { beve::to_vec(&t).unwrap() } else { serde_json::to_vec(&t).unwrap() };
+    Exp::Ok { bfmt: fmt, body }
+}
+
+/// What the property says the response to a *dispatched* request on route `rt` reports: the handler's result, or
+/// InvalidBody for an unacceptable body format, or the kind's code for an undecodable body. Computed from the raw
+/// request bytes and the closures this harness registered; nothing of the crate under test is consulted.
+fn expected_outcome(rt: &RouteSpec, path: &str, bfmt: u16, body: &[u8]) -> Outcome {
+    const INVALID_BODY: u32 = 4;
+    const PARSE_ERROR: u32 = 5;
+    let fmt_err = || Outcome { dec: DecClass::Fmt, exp: Exp::Ec(INVALID_BODY), closure: None, cl: "any".into() };
+    let bad = |code: u32| Outcome { dec: DecClass::Bad, exp: Exp::Ec(code), closure: None, cl: "any".into() };
+    let name: &'static str = rt.path;
+    let done = |exp: Exp| {
+        let cl = match &exp {
+            Exp::Ec(c) => format!("err:{}", c),
+            _ => "ok".to_string(),
+        };
+        Outcome { dec: DecClass::Ok, exp, closure: Some(name), cl }
+    };
+    match rt.hk {
+        HK::Json | HK::JsonCtx => {
+            let v = match dec_value(bfmt, body) {
+                None => return fmt_err(),
+                Some(None) => return bad(PARSE_ERROR),
+                Some(Some(v)) => v,
+            };
+            if rt.hk == HK::Json {
+                match rt.var {
+                    2 => done(Exp::Ok { bfmt: 2, body: b"\"end\"".to_vec() }),
+                    3 => done(Exp::Ok { bfmt: 2, body: b"\"slow\"".to_vec() }),
+                    4 => Outcome { dec: DecClass::Ok, exp: Exp::Stateful, closure: Some(name), cl: "any".into() },
+                    _ => {
+                        if v.get("fail").is_some() {
+                            done(Exp::Ec(4096))
+                        } else {
+                            done(Exp::Ok { bfmt: 2, body: serde_json::to_vec(&json!({"route": name, "got": v})).unwrap() })
+                        }
+                    }
+                }
+            } else {
+                done(Exp::Ok { bfmt: 2, body: serde_json::to_vec(&json!({"route": name, "method": path, "got": v})).unwrap() })
+            }
+        }
+        HK::Typed | HK::TypedCtx | HK::Adapter => {
+            let i = match dec_tin(bfmt, body) {
+                None => return fmt_err(),
+                Some(None) => return bad(PARSE_ERROR),
+                Some(Some(i)) => i,
+            };
+            match (rt.hk, rt.var) {
+                (HK::Typed, 0) => {
+                    if i.a == 13 {
+                        done(Exp::Ec(INVALID_BODY))
+                    } else {
+                        done(tout(i.a.wrapping_mul(2), i.b, 2))
+                    }
+                }
+                (HK::Typed, 1) => done(tout(i.a, i.b, 1)),
+                (HK::Typed, 2) => done(tout(i.a, i.b, 3)),
+                (HK::Typed, _) => done(tout(i.a, i.b, 0)),
+                (HK::TypedCtx, _) => done(tout(i.a.wrapping_add(1), i.b, 2)),
+                _ => done(tout(i.a.wrapping_sub(1), i.b, 2)),
+            }
+        }
+        HK::Slice => {
+            if bfmt != 1 {
+                return fmt_err();
+            }
+            // the generic empty array is what a serde peer sends for an empty Vec; the bulk decoders accept it
+            let v: Option<Vec<f64>> = if body == [0x05, 0x00] { Some(vec![]) } else { beve::read_typed_slice::<f64>(body).ok() };
+            match v {
+                None => bad(PARSE_ERROR),
+                Some(v) => done(Exp::Ok { bfmt: 1, body: enc_f64s(&v.iter().map(|x| x * 2.0).collect::<Vec<_>>()) }),
+            }
+        }
+        HK::SliceRef => {
+            if bfmt != 1 {
+                return fmt_err();
+            }
+            let v: Option<Vec<u32>> = if body.first() == Some(&0x5C) {
+                beve::read_aligned_typed_slice::<u32>(body).ok()
+            } else if body == [0x05, 0x00] {
+                Some(vec![])
+            } else {
+                beve::read_typed_slice::<u32>(body).ok()
+            };
+            match v {
+                None => bad(PARSE_ERROR),
+                Some(v) => done(Exp::Ok { bfmt: 1, body: enc_u32s(&v.iter().rev().cloned().collect::<Vec<_>>()) }),
+            }
+        }
+        HK::Custom => {
+            if body.first() == Some(&b'!') {
+                Outcome { dec: DecClass::Ok, exp: Exp::Ec(7), closure: Some(name), cl: "err:7".into() }
+            } else {
+                done(Exp::Ok { bfmt: 1234, body: body.to_vec() })
+            }
+        }
+        HK::Registry => {
+            let stateful = Outcome { dec: DecClass::Ok, exp: Exp::Stateful, closure: None, cl: "any".into() };
+            if body.is_empty() {
+                return stateful;
+            }
+            let ok = match bfmt {
+                0 => true,
+                1 => beve::from_slice::<Value>(body).is_ok(),
+                2 => serde_json::from_slice::<Value>(body).is_ok(),
+                3 => std::str::from_utf8(body).is_ok(),
+                _ => return fmt_err(),
+            };
+            // the registry reports every body-decoding failure as InvalidBody (RegistryError::code)
+            if ok { stateful } else { bad(INVALID_BODY) }
+        }
+        HK::Struct => {
+            let stateful = Outcome { dec: DecClass::Ok, exp: Exp::Stateful, closure: None, cl: "any".into() };
+            if body.is_empty() {
+                return stateful;
+            }
+            match dec_value(bfmt, body) {
+                None => fmt_err(),
+                Some(None) => bad(PARSE_ERROR),
+                Some(Some(_)) => stateful,
+            }
+        }
+    }
+}
+
+/// The gate middleware of the wrapped routers answers some requests itself (before any handler).
+fn gate_outcome(body: &[u8]) -> Option<Exp> {
+    if body.starts_with(b"#mw-err") {
+        Some(Exp::Ec(8))
+    } else if body.starts_with(b"#mw-own") {
+        Some(Exp::Ok { bfmt: 3, body: b"short".to_vec() })
+    } else {
+        None
+    }
+}
+
+// ---- generators ---------------------------------------------------------------------------------------
+fn gen_string(r: &mut Rng) -> String {
+    match r.below(8) {
+        0 => String::new(),
+        1 => "x".into(),
+        2 => "h\u{e9}llo \u{4e16}\u{754c} \u{1f600}".into(),
+        3 => "quote\" back\\slash \n tab\t".into(),
+        4 => "y".repeat(*r.pick(&[255usize, 256, 5000, 70_000])),
+        5 => "\u{0}\u{7f}".into(),
+        _ => {
+            let n = r.below(12) as usize;
+            (0..n).map(|_| (b'a' + r.below(26) as u8) as char).collect()
+        }
+    }
+}
+fn gen_i64(r: &mut Rng) -> i64 {
+    match r.below(8) {
+        0 => 0,
+        1 => 13,
+        2 => i64::MAX,
+        3 => i64::MIN,
+        4 => -1,
+        5 => 1,
+        _ => r.boundary(64) as i64,
+    }
+}
+fn gen_value(r: &mut Rng, depth: u32) -> Value {
+    match r.below(if depth > 2 { 6 } else { 9 }) {
+        0 => Value::Null,
+        1 => json!(r.chance(1, 2)),
+        2 => json!(gen_i64(r)),
+        3 => json!(r.boundary(64)),
+        4 => json!(gen_string(r)),
+        5 => json!({"fail": true}),
+        6 => Value::Array((0..r.below(4)).map(|_| gen_value(r, depth + 1)).collect()),
+        7 => json!({"a": gen_i64(r), "b": gen_string(r)}),
+        _ => {
+            let mut m = serde_json::Map::new();
+            for _ in 0..r.below(4) {
+                m.insert(gen_string(r), gen_value(r, depth + 1));
+            }
+            Value::Object(m)
+        }
+    }
+}
+fn enc_any<T: Serialize>(r: &mut Rng, v: &T) -> (u16, Vec<u8>) {
+    match r.below(4) {
+        0 => (1, beve::to_vec(v).unwrap()),
+        1 => (3, serde_json::to_vec(v).unwrap()),
+        _ => (2, serde_json::to_vec(v).unwrap()),
+    }
+}
+
+/// A body tailored to the route kind (mostly decodable), so that every kind's success path and closure are reached.
+fn tailored_body(r: &mut Rng, hk: HK, path: &str) -> (u16, Vec<u8>) {
+    match hk {
+        HK::Json | HK::JsonCtx => {
+            let v = gen_value(r, 0);
+            enc_any(r, &v)
+        }
+        HK::Typed | HK::TypedCtx | HK::Adapter => {
+            let t = TIn { a: gen_i64(r), b: gen_string(r) };
+            enc_any(r, &t)
+        }
+        HK::Slice => {
+            let n = *r.pick(&[0usize, 1, 3, 63, 64, 1000]);
+            if n == 0 && r.chance(1, 2) {
+                return (1, vec![0x05, 0x00]);
+            }
+            let v: Vec<f64> = (0..n).map(|i| match i % 5 { 0 => 1.5, 1 => -2.0, 2 => 1e300, 3 => f64::from_bits(r.next()), _ => 0.0 }).map(|x: f64| if x.is_nan() { 0.25 } else { x }).collect();
+            (1, enc_f64s(&v))
+        }
+        HK::SliceRef => {
+            let n = *r.pick(&[0usize, 1, 4, 63, 64, 500]);
+            let v: Vec<u32> = (0..n).map(|_| r.boundary(32) as u32).collect();
+            if r.chance(1, 2) { (1, beve::to_vec_aligned_typed_slice(&v)) } else { (1, enc_u32s(&v)) }
+        }
+        HK::Custom => {
+            let n = r.below(20) as usize;
+            let mut b = r.bytes(n);
+            match r.below(4) { 0 => b.insert(0, b'!'), 1 => b.insert(0, b'e'), _ => {} }
+            (*r.pick(&[0u16, 1, 2, 3, 77]), b)
+        }
+        HK::Registry => match r.below(4) {
+            0 => (2, Vec::new()),
+            1 => {
+                let v = gen_value(r, 1);
+                enc_any(r, &v)
+            }
+            2 => { let n = r.below(6) as usize; (0, r.bytes(n)) }
+            _ => (3, gen_string(r).into_bytes()),
+        },
+        HK::Struct => {
+            if path.ends_with("/gain") && r.chance(1, 2) {
+                let g = r.boundary(31) as i32;
+                enc_any(r, &g)
+            } else if path.ends_with("/label") && r.chance(1, 2) {
+                let s = gen_string(r);
+                enc_any(r, &s)
+            } else if path.ends_with("/add") {
+                let v: Vec<i64> = (0..r.below(5)).map(|_| gen_i64(r)).collect();
+                enc_any(r, &v)
+            } else {
+                (*r.pick(&[1u16, 2, 3]), Vec::new())
+            }
+        }
+    }
+}
+
+fn generic_body(r: &mut Rng) -> (u16, Vec<u8>) {
+    match r.below(16) {
         0 => (2, b"{\"a\":5,\"b\":\"x\"}".to_vec()),
         1 => (2, b"{\"a\":13,\"b\":\"y\"}".to_vec()),
         2 => (2, b"[1,2,3]".to_vec()),
@@ -204,19 +697,90 @@ fn gen_request(r: &mut Rng, id: u64) -> ReqSpec {
         4 => (2, b"{\"a\":".to_vec()), // malformed JSON
         5 => (3, b"{\"a\":7,\"b\":\"utf8\"}".to_vec()),
         6 => (1, beve::to_vec(&TIn { a: 21, b: "bv".into() }).unwrap()),
-        7 => (1, { let mut m = Message::builder().body_typed_slice(&[1.5f64, -2.0, 1e300]).build(); std::mem::take(&mut m.body) }),
-        8 => (1, { let mut m = Message::builder().body_typed_slice(&[7u32, 8, 9, 10]).build(); std::mem::take(&mut m.body) }),
+        7 => (1, enc_f64s(&[1.5f64, -2.0, 1e300])),
+        8 => (1, enc_u32s(&[7u32, 8, 9, 10])),
         9 => match r.below(3) {
-            0 => (*r.pick(&[0u16, 4, 999, 65535]), b"{\"a\":1,\"b\":\"z\"}".to_vec()),
+            0 => (*r.pick(&[0u16, 4, 5, 255, 256, 999, 4095, 4096, 65535]), b"{\"a\":1,\"b\":\"z\"}".to_vec()),
             // invalid UTF-8 inside an otherwise valid JSON string, UTF-8- and JSON-framed
             1 => (*r.pick(&[2u16, 3]), b"{\"a\":7,\"b\":\"\xff\xfe\"}".to_vec()),
             _ => (*r.pick(&[2u16, 3]), b"[\"\xc3\x28\",1]".to_vec()),
         },
         10 => (*r.pick(&[1u16, 2, 3]), { let l = r.below(12) as usize; r.bytes(l) }),
         // text-framed bodies that are JSON except for bytes that are not UTF-8 (every decoder must refuse them alike)
-        12 => (*r.pick(&[3u16, 3, 2]), r.pick(&[&b"{\"a\":7,\"b\":\"a\xffb\"}"[..], &b"{\"s\":\"\xed\xa0\x80\"}"[..], &b"\"\xf8\x88\x80\x80\x80\""[..], &b"{\"a\":1,\"b\":\"\xc0\xaf\"}"[..]]).to_vec()),
+        11 => (*r.pick(&[3u16, 3, 2]), r.pick(&[&b"{\"a\":7,\"b\":\"a\xffb\"}"[..], &b"{\"s\":\"\xed\xa0\x80\"}"[..], &b"\"\xf8\x88\x80\x80\x80\""[..], &b"{\"a\":1,\"b\":\"\xc0\xaf\"}"[..]]).to_vec()),
+        // answered or refused by the gate middleware on the wrapped routers, undecodable on the bare ones
+        12 => (*r.pick(&[2u16, 1, 0]), r.pick(&[&b"#mw-err"[..], &b"#mw-own"[..], &b"#mw-own and more"[..]]).to_vec()),
+        // BEVE bodies cut short / with a trailing byte; a typed array of the wrong element type
+        13 => {
+            let mut b = match r.below(3) { 0 => enc_f64s(&[1.0, 2.0]), 1 => enc_u32s(&[1, 2, 3]), _ => beve::to_vec(&TIn { a: 1, b: "t".into() }).unwrap() };
+            match r.below(3) { 0 => { b.pop(); } 1 => b.push(0), _ => {} }
+            (1, b)
+        }
+        14 => (2, format!("{{\"a\":3,\"b\":\"{}\"}}", "z".repeat(*r.pick(&[9000usize, 70_000]))).into_bytes()),
         _ => (*r.pick(&[0u16, 1, 2, 3]), Vec::new()),
+    }
+}
+
+const ODD_PATHS: &[&[u8]] = &[
+    b"/reg/missing", b"/reg/a~1b", b"/dex", b"/regx", b"/devx", b"/devrwx", b"/dev/nope", b"/nope", b"", b"/", b"json", b"/json/", b"/jsonx", b"/JSON",
+    b"/\xff\xfe", b"\xc3\x28", b"/json\x00", b"/json\xc3", "/js\u{f6}n".as_bytes(), "/js\u{f6}n/\u{7801}/x".as_bytes(), b"/custom/sub", b"//json", b"/re", b"/de",
+];
+const MOUNT_PATHS: &[&str] = &[
+    "/reg/a", "/reg/a/b", "/reg/a/list/1", "/reg/f", "/reg/s", "/reg", "/de/v", "/re/v", "/dev/gain", "/dev/label", "/dev/hello", "/dev/add", "/dev", "/devrw/gain", "/devrw/label",
+    "/devrw/add", "/devrw",
+];
+
+fn gen_id(r: &mut Rng, seq: u64, k: u64, used: &mut HashSet<u64>) -> u64 {
+    loop {
+        let id = if r.chance(1, 8) {
+            match r.below(8) {
+                0 => 0,
+                1 => 1,
+                2 => u32::MAX as u64,
+                3 => 1u64 << 32,
+                4 => 1u64 << 63,
+                5 => u64::MAX,
+                6 => u64::MAX - 1 - r.below(1000),
+                _ => r.next(),
+            }
+        } else {
+            seq * 1000 + k + 1
+        };
+        if id != S1 && id != S2 && used.insert(id) {
+            return id;
+        }
+    }
+}
+
+fn gen_request(r: &mut Rng, id: u64) -> ReqSpec {
+    // path: mostly a registered route (exact or below a mount), else an unregistered / malformed one
+    let query: Vec<u8> = match r.below(10) {
+        0 | 1 => r.pick(ODD_PATHS).to_vec(),
+        2 | 3 | 4 => r.pick(MOUNT_PATHS).as_bytes().to_vec(),
+        9 if r.chance(1, 6) => format!("/missing/{}", "p".repeat(*r.pick(&[300usize, 9000, 70_000]))).into_bytes(),
+        _ => loop {
+            let rt = r.pick(EXACT);
+            // the sentinel route, the 150 ms route and the panicking route are driven by their own scenarios
+            if !matches!(rt.path, "/__end" | "/slow_b" | "/panic_b") && (rt.path != "/slow" || r.chance(1, 4)) {
+                break rt.path.as_bytes().to_vec();
+            }
+        },
     };
+    let version = if r.chance(17, 20) { 1 } else { *r.pick(&[0u8, 2, 3, 127, 128, 254, 255]) };
+    let notify = match r.below(20) { 0..=4 => 1u8, 5 => *r.pick(&[2u8, 3, 127, 128, 254, 255]), 6 => r.next() as u8, _ => 0 };
+    let qfmt = if r.chance(22, 25) { 1u16 } else { *r.pick(&[0u16, 2, 3, 255, 256, 257, 4095, 4096, 65535]) };
+    let route = std::str::from_utf8(&query).ok().and_then(expected_route);
+    let (bfmt, mut body) = match route {
+        Some(rt) if r.chance(11, 20) => tailored_body(r, rt.hk, std::str::from_utf8(&query).unwrap()),
+        _ => generic_body(r),
+    };
+    // registry / struct state must evolve alike behind wrapped and bare routers: the gate middleware (wrapped only)
+    // must not swallow a write the bare routers perform
+    if matches!(route, Some(rt) if matches!(rt.hk, HK::Registry | HK::Struct)) && gate_outcome(&body).is_some() {
+        body[0] = b'%';
+    }
+    // any body under a body-format code the kind may not accept
+    let bfmt = if r.chance(1, 12) { *r.pick(&[0u16, 4, 5, 255, 256, 999, 4095, 4096, 65535]) } else { bfmt };
     let mut f = RawFrame::request(id, false, qfmt, &query, bfmt, &body);
     f.h.version = version;
     f.h.notify = notify;
@@ -226,12 +790,27 @@ fn gen_request(r: &mut Rng, id: u64) -> ReqSpec {
     if r.chance(1, 16) {
         f.h.ec = r.boundary(32) as u32;
     }
-    ReqSpec { h: f.h, query, body }
+    ReqSpec { h: f.h, query, body, ping: r.chance(1, 12) }
 }
 
 fn hout_str(r: &Result<Message, RepeError>) -> String {
     match r {
         Ok(m) => format!("ok:{}:{}:{}", RawHeader::of(&m.header).fields().replace(' ', ","), hex(&m.query), hex(&m.body)),
+        Err(e) => format!("err:{}:{}", e.to_error_code() as u32, hex(e.to_string().as_bytes())),
+    }
+}
+
+/// A handler-level outcome with the dispatch layer's echo rule applied by hand (an empty response query is filled
+/// with the request's, lengths patched): the borrowed and the owned entry point must agree on this.
+fn normalised(r: &Result<Message, RepeError>, req_query: &[u8]) -> String {
+    match r {
+        Ok(m) => {
+            let mut h = RawHeader::of(&m.header);
+            let q: &[u8] = if m.query.is_empty() { req_query } else { &m.query };
+            h.query_length = q.len() as u64;
+            h.length = 48 + h.query_length + h.body_length;
+            format!("ok:{}:{}:{}", h.fields().replace(' ', ","), hex(q), hex(&m.body))
+        }
         Err(e) => format!("err:{}:{}", e.to_error_code() as u32, hex(e.to_string().as_bytes())),
     }
 }
@@ -252,47 +831,63 @@ enum Kind {
 struct Endpoint {
     name: &'static str,
     kind: Kind,
+    /// router behind the counting + gate middlewares (else bare: the handlers' own `handle_view` is reached)
+    wrapped: bool,
     addr: std::net::SocketAddr,
     counters: Counters,
+}
+impl Endpoint {
+    /// Events that tell when every dispatched handler has finished: pipeline exits (wrapped) / closure entries (bare).
+    fn progress(&self) -> u64 {
+        if self.wrapped { self.counters.total_done() } else { self.counters.total_closures() }
+    }
 }
 
 struct Servers {
     eps: Vec<Endpoint>,
     rt: tokio::runtime::Runtime,
 }
+impl Servers {
+    fn ep(&self, name: &str) -> &Endpoint {
+        self.eps.iter().find(|e| e.name == name).unwrap()
+    }
+}
 
-/// Five real endpoints: blocking TCP and async TCP, each with and without a configured write timeout
-/// (different framing branches), and the WebSocket server; `wsp` is a WebSocket server whose outbound
-/// channel holds a single message (used by the pressure sequences).
+/// The real endpoints. Wrapped routers: blocking TCP and async TCP, each with and without configured write/read
+/// timeouts (different framing / read branches), `tcpx` with Nagle left on, the WebSocket server (`ws`; `wsp` with an
+/// outbound channel of one message for the pressure sequences; `wsb` on a runtime with ONE blocking thread).
+/// Bare routers (no middleware): `tcpn`, `atcpn`, and `wsn` (a hand-written accept loop over
+/// `into_shared().accept()` + `serve_connection`, outbound channel of four, unbounded off-reader limit).
 fn start_servers() -> Servers {
     let rt = tokio::runtime::Builder::new_multi_thread().worker_threads(4).enable_all().build().unwrap();
     let mut eps = Vec::new();
-    for (name, wt) in [("tcp", None), ("tcpw", Some(Duration::from_secs(20)))] {
+    let long = Some(Duration::from_secs(30));
+    for (name, wt, rtm, nodelay, wrapped) in [("tcp", None, None, true, true), ("tcpw", Some(Duration::from_secs(20)), long, true, true), ("tcpx", None, None, false, true), ("tcpn", None, None, true, false)] {
         let c = Counters::default();
         let listener = std::net::TcpListener::bind("127.0.0.1:0").unwrap();
         let addr = listener.local_addr().unwrap();
-        let srv = repe::Server::new(make_router(&c)).write_timeout(wt);
+        let srv = repe::Server::new(make_router(&c, wrapped)).write_timeout(wt).read_timeout(rtm).tcp_nodelay(nodelay);
         std::thread::spawn(move || {
             let _ = srv.serve(listener);
         });
-        eps.push(Endpoint { name, kind: Kind::Tcp, addr, counters: c });
+        eps.push(Endpoint { name, kind: Kind::Tcp, wrapped, addr, counters: c });
     }
-    for (name, wt) in [("atcp", None), ("atcpw", Some(Duration::from_secs(20)))] {
+    for (name, wt, rtm, wrapped) in [("atcp", None, None, true), ("atcpw", Some(Duration::from_secs(20)), long, true), ("atcpn", None, long, false)] {
         let c = Counters::default();
-        let r = make_router(&c);
+        let r = make_router(&c, wrapped);
         let addr = rt.block_on(async {
             let l = tokio::net::TcpListener::bind("127.0.0.1:0").await.unwrap();
             let a = l.local_addr().unwrap();
             tokio::spawn(async move {
-                let _ = repe::AsyncServer::new(r).write_timeout(wt).serve(l).await;
+                let _ = repe::AsyncServer::new(r).write_timeout(wt).read_timeout(rtm).serve(l).await;
             });
             a
         });
-        eps.push(Endpoint { name, kind: Kind::Tcp, addr, counters: c });
+        eps.push(Endpoint { name, kind: Kind::Tcp, wrapped, addr, counters: c });
     }
     for (name, cap) in [("ws", None), ("wsp", Some(1usize))] {
         let c = Counters::default();
-        let r = make_router(&c);
+        let r = make_router(&c, true);
         let addr = rt.block_on(async {
             let l = tokio::net::TcpListener::bind("127.0.0.1:0").await.unwrap();
             let a = l.local_addr().unwrap();
@@ -300,30 +895,61 @@ fn start_servers() -> Servers {
                 let mut s = repe::websocket_server::WebSocketServer::new(r);
                 if let Some(cap) = cap {
                     s = s.with_outbound_capacity(cap);
+                    let _ = s.serve_listener(l, "/repe").await;
+                } else {
+                    let _ = s.serve_listener_with_shutdown(l, "repe/", std::future::pending::<()>()).await;
                 }
-                let _ = s.serve_listener(l, "/repe").await;
             });
             a
         });
-        eps.push(Endpoint { name, kind: Kind::Ws, addr, counters: c });
+        eps.push(Endpoint { name, kind: Kind::Ws, wrapped: true, addr, counters: c });
+    }
+    {
+        let c = Counters::default();
+        let r = make_router(&c, false);
+        let addr = rt.block_on(async {
+            let l = tokio::net::TcpListener::bind("127.0.0.1:0").await.unwrap();
+            let a = l.local_addr().unwrap();
+            let shared = repe::websocket_server::WebSocketServer::new(r).with_outbound_capacity(4).with_offreader_limit(0).into_shared();
+            tokio::spawn(async move {
+                loop {
+                    let Ok((stream, _)) = l.accept().await else { break };
+                    let _ = stream.set_nodelay(true);
+                    let sh = shared.clone();
+                    tokio::spawn(async move {
+                        if let Ok(ws) = sh.accept(stream, "/repe").await {
+                            let _ = sh.serve_connection(ws).await;
+                        }
+                    });
+                }
+            });
+            a
+        });
+        eps.push(Endpoint { name: "wsn", kind: Kind::Ws, wrapped: false, addr, counters: c });
     }
     // `wsb`: a WebSocket server on a runtime whose blocking pool has ONE thread (off-reader handlers queue up)
     {
         let c = Counters::default();
-        let r = make_router(&c);
+        let r = make_router(&c, true);
         let (tx, rx) = std::sync::mpsc::channel();
         std::thread::spawn(move || {
             let rt2 = tokio::runtime::Builder::new_multi_thread().worker_threads(2).max_blocking_threads(1).enable_all().build().unwrap();
             rt2.block_on(async move {
                 let l = tokio::net::TcpListener::bind("127.0.0.1:0").await.unwrap();
                 tx.send(l.local_addr().unwrap()).unwrap();
-                let _ = repe::websocket_server::WebSocketServer::new(r).serve_listener(l, "/repe").await;
+                let _ = repe::websocket_server::WebSocketServer::new(r).serve_listener_with_graceful_drain(l, "/repe", std::future::pending::<()>(), Duration::from_secs(1)).await;
             });
         });
         let addr = rx.recv().unwrap();
-        eps.push(Endpoint { name: "wsb", kind: Kind::Ws, addr, counters: c });
+        eps.push(Endpoint { name: "wsb", kind: Kind::Ws, wrapped: true, addr, counters: c });
     }
     Servers { eps, rt }
+}
+
+async fn ws_connect(addr: std::net::SocketAddr) -> Option<tokio_tungstenite::WebSocketStream<tokio_tungstenite::MaybeTlsStream<tokio::net::TcpStream>>> {
+    let url = format!("ws://{}/repe", addr);
+    // Nagle off on the client side (the default leaves it on: ~40 ms per small frame)
+    tokio_tungstenite::connect_async_with_config(&url, None, true).await.ok().map(|(ws, _)| ws)
 }
 
 /// Busy-pool scenario: one slow off-reader request occupies the only blocking thread, K notifies to a blocking
@@ -331,14 +957,13 @@ fn start_servers() -> Servers {
 /// exactly once (the property's "a dispatched request's handler is invoked exactly once").
 fn busy_pool_close(out: &mut Out, sv: &Servers, k: usize, seqno: usize) {
     use tokio_tungstenite::tungstenite::Message as WsMsg;
-    let ep = sv.eps.iter().find(|e| e.name == "wsb").unwrap();
+    let ep = sv.ep("wsb");
     let key_n = hex(b"/json_b");
     let key_s = hex(b"/slow_b");
     let get = |key: &str| ep.counters.started.lock().unwrap().get(key).copied().unwrap_or(0);
     let (n0, s0) = (get(&key_n), get(&key_s));
-    let url = format!("ws://{}/repe", ep.addr);
     let ok = sv.rt.block_on(async {
-        let Ok((mut ws, _)) = tokio_tungstenite::connect_async(&url).await else { return false };
+        let Some(mut ws) = ws_connect(ep.addr).await else { return false };
         let slow = RawFrame::request(900_000 + seqno as u64, false, 1, b"/slow_b", 2, b"null").to_vec();
         if ws.send(WsMsg::Binary(slow)).await.is_err() { return false; }
         for i in 0..k {
@@ -377,6 +1002,8 @@ fn busy_pool_close(out: &mut Out, sv: &Servers, k: usize, seqno: usize) {
 #[derive(Default)]
 struct TransportRun {
     frames: Vec<RawFrame>, // in arrival order, sentinels removed
+    /// server-initiated notifies (handler pushes), not responses
+    pushes: u64,
     problems: Vec<String>,
 }
 
@@ -387,13 +1014,17 @@ fn sentinel(id: u64) -> Vec<u8> {
 const S1: u64 = 0xFFFF_FFFF_0000_0001;
 const S2: u64 = 0xFFFF_FFFF_0000_0002;
 
-/// Raw TCP client: a writer thread sends the pipelined requests and the first sentinel while this
-/// thread reads (so large sequences cannot deadlock on full socket buffers); `read_delay` slows the
-/// reader down per frame (pressure sequences).
-fn run_tcp(ep: &Endpoint, reqs: &[ReqSpec], expect_ids: &[u64], expect_dispatch: u64, read_delay: Duration) -> TransportRun {
-    let counters = &ep.counters;
+fn have_all(frames: &[RawFrame], expect_ids: &[u64]) -> bool {
+    let have: HashSet<u64> = frames.iter().map(|f| f.h.id).collect();
+    expect_ids.iter().all(|i| have.contains(i))
+}
+
+/// Raw TCP client: a writer thread sends the pipelined requests (in chunks of `chunk` bytes, 0 = one write) while
+/// this thread reads (so large sequences cannot deadlock on full socket buffers); `read_delay` slows the reader down
+/// per frame (pressure sequences). `expect_events`: progress events (see `Endpoint::progress`) the sequence causes.
+fn run_tcp(ep: &Endpoint, reqs: &[ReqSpec], expect_ids: &[u64], expect_events: u64, read_delay: Duration, chunk: usize) -> TransportRun {
     let mut out = TransportRun::default();
-    let base_done = counters.total_done();
+    let base = ep.progress();
     let mut s = match std::net::TcpStream::connect(ep.addr) {
         Ok(s) => s,
         Err(e) => { out.problems.push(format!("connect: {e}")); return out; }
@@ -401,10 +1032,20 @@ fn run_tcp(ep: &Endpoint, reqs: &[ReqSpec], expect_ids: &[u64], expect_dispatch:
     s.set_nodelay(true).ok();
     let mut wire = Vec::new();
     for r in reqs {
-        wire.extend(RawFrame { h: r.h.clone(), query: r.query.clone(), body: r.body.clone() }.to_vec());
+        wire.extend(r.wire());
     }
     let mut ws = s.try_clone().expect("clone");
-    let writer = std::thread::spawn(move || ws.write_all(&wire).is_ok());
+    let writer = std::thread::spawn(move || {
+        if chunk == 0 {
+            return ws.write_all(&wire).is_ok();
+        }
+        for (i, c) in wire.chunks(chunk).enumerate() {
+            if ws.write_all(c).is_err() { return false; }
+            // let some chunks reach the server alone
+            if i % 7 == 3 { std::thread::sleep(Duration::from_micros(300)); }
+        }
+        true
+    });
     let deadline = Instant::now() + WATCHDOG;
     // every response must arrive without any further request being sent: the first sentinel goes out only
     // once all expected responses are in (or after a grace period, which is then reported)
@@ -415,7 +1056,7 @@ fn run_tcp(ep: &Endpoint, reqs: &[ReqSpec], expect_ids: &[u64], expect_dispatch:
     let mut seen_s2 = false;
     let mut sent_s2 = false;
     s.set_read_timeout(Some(Duration::from_millis(4))).ok();
-    let mut tmp = [0u8; 65536];
+    let mut tmp = vec![0u8; 262144];
     loop {
         while let Some((f, n)) = RawFrame::parse_prefix(&buf) {
             buf.drain(..n);
@@ -426,8 +1067,7 @@ fn run_tcp(ep: &Endpoint, reqs: &[ReqSpec], expect_ids: &[u64], expect_dispatch:
         }
         if seen_s2 { break; }
         if !sent_s1 && writer.is_finished() {
-            let have: Vec<u64> = out.frames.iter().map(|f| f.h.id).collect();
-            let all = expect_ids.iter().all(|i| have.contains(i));
+            let all = have_all(&out.frames, expect_ids);
             if all || Instant::now() > grace {
                 if !all { out.problems.push("response-withheld-until-next-request".into()); }
                 if s.write_all(&sentinel(S1)).is_err() { out.problems.push("write-s1".into()); break; }
@@ -435,9 +1075,8 @@ fn run_tcp(ep: &Endpoint, reqs: &[ReqSpec], expect_ids: &[u64], expect_dispatch:
             }
         }
         if seen_s1 && !sent_s2 {
-            let have: Vec<u64> = out.frames.iter().map(|f| f.h.id).collect();
-            let all = expect_ids.iter().all(|i| have.contains(i));
-            let quiesced = counters.total_done() - base_done >= expect_dispatch + 1;
+            let all = have_all(&out.frames, expect_ids);
+            let quiesced = ep.progress() - base >= expect_events + 1;
             if (all && quiesced) || Instant::now() > deadline - Duration::from_secs(5) {
                 if !all { out.problems.push("missing-response".into()); }
                 if !quiesced { out.problems.push("handlers-not-finished".into()); }
@@ -459,26 +1098,22 @@ fn run_tcp(ep: &Endpoint, reqs: &[ReqSpec], expect_ids: &[u64], expect_dispatch:
     out
 }
 
-fn run_ws(sv: &Servers, ep: &Endpoint, reqs: &[ReqSpec], expect_ids: &[u64], expect_dispatch: u64, read_delay: Duration) -> TransportRun {
+fn run_ws(sv: &Servers, ep: &Endpoint, reqs: &[ReqSpec], expect_ids: &[u64], expect_events: u64, read_delay: Duration) -> TransportRun {
     use tokio_tungstenite::tungstenite::Message as WsMsg;
-    let counters = ep.counters.clone();
-    let base_done = counters.total_done();
-    let url = format!("ws://{}/repe", ep.addr);
-    let reqs: Vec<Vec<u8>> = reqs.iter().map(|r| RawFrame { h: r.h.clone(), query: r.query.clone(), body: r.body.clone() }.to_vec()).collect();
+    let base = ep.progress();
+    let reqs: Vec<(bool, Vec<u8>)> = reqs.iter().map(|r| (r.ping, r.wire())).collect();
     let expect_ids = expect_ids.to_vec();
     sv.rt.block_on(async move {
         let mut out = TransportRun::default();
-        let ws = match tokio_tungstenite::connect_async(&url).await {
-            Ok((x, _)) => x,
-            Err(e) => { out.problems.push(format!("connect: {e}")); return out; }
-        };
+        let Some(ws) = ws_connect(ep.addr).await else { out.problems.push("connect".into()); return out; };
         let (mut sink, mut stream) = ws.split();
         let (s2_tx, mut s2_rx) = tokio::sync::mpsc::channel::<u64>(2);
         let sent_all = Arc::new(std::sync::atomic::AtomicBool::new(false));
         let sent_all2 = sent_all.clone();
-        // sender task: all requests, then each sentinel when the reader asks for it
+        // sender task: all requests (some preceded by a Ping), then each sentinel when the reader asks for it
         let sender = tokio::spawn(async move {
-            for r in reqs {
+            for (ping, r) in reqs {
+                if ping && sink.send(WsMsg::Ping(b"hb".to_vec())).await.is_err() { return false; }
                 if sink.send(WsMsg::Binary(r)).await.is_err() { return false; }
             }
             sent_all2.store(true, std::sync::atomic::Ordering::SeqCst);
@@ -494,8 +1129,7 @@ fn run_ws(sv: &Servers, ep: &Endpoint, reqs: &[ReqSpec], expect_ids: &[u64], exp
         let (mut seen_s1, mut sent_s2) = (false, false);
         loop {
             if !sent_s1 && sent_all.load(std::sync::atomic::Ordering::SeqCst) {
-                let have: Vec<u64> = out.frames.iter().map(|f| f.h.id).collect();
-                let all = expect_ids.iter().all(|i| have.contains(i));
+                let all = have_all(&out.frames, &expect_ids);
                 if all || Instant::now() > grace {
                     if !all { out.problems.push("response-withheld-until-next-request".into()); }
                     if s2_tx.send(S1).await.is_err() { out.problems.push("send-s1".into()); break; }
@@ -503,9 +1137,8 @@ fn run_ws(sv: &Servers, ep: &Endpoint, reqs: &[ReqSpec], expect_ids: &[u64], exp
                 }
             }
             if seen_s1 && !sent_s2 {
-                let have: Vec<u64> = out.frames.iter().map(|f| f.h.id).collect();
-                let all = expect_ids.iter().all(|i| have.contains(i));
-                let quiesced = counters.total_done() - base_done >= expect_dispatch + 1;
+                let all = have_all(&out.frames, &expect_ids);
+                let quiesced = ep.progress() - base >= expect_events + 1;
                 if (all && quiesced) || Instant::now() > deadline - Duration::from_secs(5) {
                     if !all { out.problems.push("missing-response".into()); }
                     if !quiesced { out.problems.push("handlers-not-finished".into()); }
@@ -520,6 +1153,7 @@ fn run_ws(sv: &Servers, ep: &Endpoint, reqs: &[ReqSpec], expect_ids: &[u64], exp
                 Ok(Some(Err(e))) => { out.problems.push(format!("ws-error: {e}")); break; }
                 Ok(Some(Ok(WsMsg::Binary(b)))) => match RawFrame::parse_prefix(&b) {
                     Some((f, n)) if n == b.len() => {
+                        if f.h.notify == 1 && f.query == b"/progress" { out.pushes += 1; continue; }
                         if f.h.id == S1 && f.query == b"/__end" { seen_s1 = true; continue; }
                         if f.h.id == S2 && f.query == b"/__end" { break; }
                         out.frames.push(f);
@@ -539,127 +1173,218 @@ fn run_ws(sv: &Servers, ep: &Endpoint, reqs: &[ReqSpec], expect_ids: &[u64], exp
 // ------------------------------------------------------------------------------------------
 // one sequence
 // ------------------------------------------------------------------------------------------
-/// The route table as this harness registered it, and the lookup rule the property states (exact path wins;
-/// a mount gets its prefix itself or an extension at a '/' boundary) — independent of `Router::get`.
-const EXACT: &[&str] = &["/json", "/__end", "/typed", "/typed_beve", "/json_ctx", "/typed_ctx", "/slice", "/slice_ref", "/custom", "/json_b", "/slow_b", "/json_ctx_b", "/typed_b", "/typed_ctx_b"];
-const MOUNTS: &[&str] = &["/reg", "/de", "/re", "/dev"];
-fn expected_found(path: &str) -> bool {
-    EXACT.contains(&path) || MOUNTS.iter().any(|m| path == *m || (path.starts_with(m) && path.as_bytes().get(m.len()) == Some(&b'/')))
-}
-
 fn utf8(q: &[u8]) -> bool {
     std::str::from_utf8(q).is_ok()
 }
 
-fn run_sequence(out: &mut Out, sv: &Servers, probe: &Router, seqno: usize, reqs: &[ReqSpec], pressure: bool) {
-    // in-process probe of each request (handler-level outcome on both entry points)
+struct Probes {
+    wrapped: Router,
+    bare: Router,
+}
+
+/// (ec, body format, body) of a handler-level outcome, as the response will report it.
+fn outcome_fields(r: &Result<Message, RepeError>) -> (u32, u16, Vec<u8>) {
+    match r {
+        Ok(m) => (m.header.ec, m.header.body_format, m.body.clone()),
+        Err(e) => (e.to_error_code() as u32, 3, Vec::new()),
+    }
+}
+
+/// Compare an observed (ec, body format, body) with the independent expectation; `Some(what)` on a mismatch.
+fn exp_mismatch(exp: &Exp, ec: u32, bfmt: u16, body: &[u8]) -> Option<String> {
+    match exp {
+        Exp::Stateful => None,
+        Exp::Ec(c) => (ec != *c).then(|| format!("ec: expected error code {} but the response reports {}", c, ec)),
+        Exp::Ok { bfmt: bf, body: b } => {
+            if ec != 0 {
+                Some(format!("ec: expected the handler's result but the response reports error code {}", ec))
+            } else if bfmt != *bf {
+                Some(format!("body_format: expected {} got {}", bf, bfmt))
+            } else if body != &b[..] {
+                Some(format!("body: expected {} got {}", clip(&hex(b)), clip(&hex(body))))
+            } else {
+                None
+            }
+        }
+    }
+}
+fn clip(s: &str) -> String {
+    if s.len() > 80 { format!("{}…({} hex chars)", &s[..80], s.len()) } else { s.to_string() }
+}
+
+struct EpRun<'a> {
+    ep: &'a Endpoint,
+    /// observation column (the two wrapped WebSocket servers share `ws`)
+    col: &'static str,
+    t: TransportRun,
+    started: BTreeMap<String, u64>,
+    closures: BTreeMap<String, u64>,
+}
+
+fn run_on<'a>(sv: &'a Servers, ep: &'a Endpoint, reqs: &[ReqSpec], expect_ids: &[u64], events_w: u64, events_n: u64, read_delay: Duration, chunk: usize) -> EpRun<'a> {
+    let base_s = ep.counters.started.lock().unwrap().clone();
+    let base_c = ep.counters.closures.lock().unwrap().clone();
+    let ev = if ep.wrapped { events_w } else { events_n };
+    let t = match ep.kind {
+        Kind::Tcp => run_tcp(ep, reqs, expect_ids, ev, read_delay, chunk),
+        Kind::Ws => run_ws(sv, ep, reqs, expect_ids, ev, read_delay),
+    };
+    let delta = |now: BTreeMap<String, u64>, base: &BTreeMap<String, u64>, skip: &str| -> BTreeMap<String, u64> {
+        now.iter().filter(|(k, _)| k.as_str() != skip).map(|(k, v)| (k.clone(), v - base.get(k).copied().unwrap_or(0))).filter(|(_, v)| *v > 0).collect()
+    };
+    let started = delta(ep.counters.started.lock().unwrap().clone(), &base_s, &hex(b"/__end"));
+    let closures = delta(ep.counters.closures.lock().unwrap().clone(), &base_c, "/__end");
+    let col = match ep.name { "wsp" => "ws", n => n };
+    EpRun { ep, col, t, started, closures }
+}
+
+const COLUMNS: &[&str] = &["tcp", "tcpw", "atcp", "atcpw", "ws", "tcpn", "atcpn", "wsn"];
+
+fn run_sequence(out: &mut Out, sv: &Servers, probe: &Probes, seqno: usize, reqs: &[ReqSpec], params: SeqParams) {
+    let pressure = params.pressure;
+    // in-process probe of each request (handler-level outcome on both entry points of both routers) and the
+    // independent expectation
     let mut op_lines = Vec::new();
     let mut expect_ids = Vec::new();
-    let mut expect_dispatch = 0u64;
     let mut dispatched_paths: BTreeMap<String, u64> = BTreeMap::new();
+    let (mut events_w, mut events_n) = (0u64, 0u64);
+    let mut closures_w: BTreeMap<String, u64> = BTreeMap::new();
+    let mut closures_n: BTreeMap<String, u64> = BTreeMap::new();
     let mut is_off = Vec::new();
+    // per request: (route, expectation on wrapped routers, on bare routers, gate answered)
+    let mut exps: Vec<Option<(RouteSpec, Exp, Exp, bool)>> = Vec::new();
     for (k, r) in reqs.iter().enumerate() {
         let idx = format!("{}.{}", seqno, k);
         let h = r.h.to_repe();
         let path_ok = r.h.version == 1 && r.h.query_format == 1 && utf8(&r.query);
-        let handler = if utf8(&r.query) { probe.get(std::str::from_utf8(&r.query).unwrap()) } else { None };
-        let found = handler.is_some();
-        if utf8(&r.query) {
-            let p = std::str::from_utf8(&r.query).unwrap();
-            if expected_found(p) != found {
-                out.oracle_fail("dispatch.lookup.found_mismatch", &format!("Router::get({:?}) is {} but the registered routes/mounts say {}", p, found, expected_found(p)), &[format!("lookup {}", hex(&r.query))]);
-            }
-        }
-        let off = handler.as_ref().map(|h| h.execution() == repe::Execution::OffReader).unwrap_or(false);
-        let (hv, ho) = match (&handler, path_ok) {
-            (Some(hd), true) => {
-                let wire = RawFrame { h: r.h.clone(), query: r.query.clone(), body: r.body.clone() }.to_vec();
-                let view = MessageView::from_slice(&wire).expect("well-framed");
-                let path = std::str::from_utf8(&r.query).unwrap();
-                let ctx = CallContext::detached(path);
-                let v = catch(|| hd.handle_view(&view, &ctx));
-                let msg = Message { header: h, query: r.query.clone(), body: r.body.clone() };
-                let o = catch(|| hd.handle_with_ctx(&msg, &ctx));
-                // shape of a built-in handler's success response (model: `builtinResponse`): request id, known query
-                // format or raw binary, ec 0, no query, consistent lengths
-                if let (Ok(Ok(m)), false) = (&v, r.query.starts_with(b"/custom")) {
-                    let want_qf = if r.h.query_format <= 1 { r.h.query_format } else { 0 };
-                    let hh = &m.header;
-                    if m.header.ec == 0 && !(hh.id == r.h.id && hh.query_format == want_qf && hh.notify == 0 && hh.reserved == 0 && hh.version == 1 && m.query.is_empty()
-                        && hh.body_length == m.body.len() as u64 && hh.length == 48 + m.body.len() as u64) {
-                        out.oracle_fail("dispatch.builtin_response_shape", &format!("request id {}: a built-in handler's success response does not have the response_header_builder shape", r.h.id), &[format!("probe {}", hex(&r.query))]);
+        let route = std::str::from_utf8(&r.query).ok().and_then(expected_route);
+        let found = route.is_some();
+        let mut handlers = None;
+        if let Ok(p) = std::str::from_utf8(&r.query) {
+            let (hw, hn) = (probe.wrapped.get(p), probe.bare.get(p));
+            for (which, hd) in [("wrapped", &hw), ("bare", &hn)] {
+                if hd.is_some() != found {
+                    out.oracle_fail("dispatch.lookup.found_mismatch", &format!("Router::get({:?}) on the {} router is {} but the registered routes/mounts say {}", p, which, hd.is_some(), found), &[format!("lookup {}", hex(&r.query))]);
+                }
+                if let (Some(hd), Some(rt)) = (hd, &route) {
+                    if (hd.execution() == repe::Execution::OffReader) != rt.blocking {
+                        out.oracle_fail("dispatch.lookup.execution_mismatch", &format!("route {:?} on the {} router: execution() is {:?} but the route was registered {}", p, which, hd.execution(), if rt.blocking { "with a _blocking constructor" } else { "inline" }), &[format!("lookup {}", hex(&r.query))]);
                     }
                 }
-                // A handler has two entry points (borrowed view / owned message); which one a request reaches depends on the
-                // transport and on the route kind, so "the same request yields the same response fields on every
-                // transport" needs them to agree. And the built-in JSON handlers must refuse a body that is not JSON
-                // (decided here with the harness's own parse of the raw bytes) with ParseError, and decode one that is.
-                if let (Ok(a), Ok(b)) = (&v, &o) {
-                    let (sa, sb) = (hout_str(a), hout_str(b));
-                    if sa != sb && !r.query.starts_with(b"/custom") {
-                        out.oracle_fail("dispatch.entry_points_disagree", &format!("route {:?}, body format {}, body {}: handle_view gives {} but handle_with_ctx gives {}", path, r.h.body_format, hex(&r.body), &sa[..sa.len().min(90)], &sb[..sb.len().min(90)]), &[format!("probe {}", hex(&r.query))]);
+            }
+            if let (Some(a), Some(b)) = (hw, hn) { handlers = Some((a, b)); }
+        }
+        let off = route.map(|rt| rt.blocking).unwrap_or(false);
+        let dispatches = path_ok && found;
+        let mut toks = ("none".to_string(), "none".to_string(), "=".to_string(), "=".to_string());
+        let mut kv = "k=none bl=0 dec=ok cl=any".to_string();
+        let mut exp_entry = None;
+        if let (true, Some(rt), Some((hw, hn))) = (dispatches, route, &handlers) {
+            let path = std::str::from_utf8(&r.query).unwrap();
+            let oc = expected_outcome(&rt, path, r.h.body_format, &r.body);
+            let gate = gate_outcome(&r.body);
+            let exp_w = gate.clone().unwrap_or_else(|| oc.exp.clone());
+            let wire = r.wire();
+            let view = MessageView::from_slice(&wire).expect("well-framed");
+            let ctx = CallContext::detached(path);
+            let msg = Message { header: h, query: r.query.clone(), body: r.body.clone() };
+            let four = [
+                ("wrapped.handle_view", catch(|| hw.handle_view(&view, &ctx)), &exp_w),
+                ("wrapped.handle_with_ctx", catch(|| hw.handle_with_ctx(&msg, &ctx)), &exp_w),
+                ("bare.handle_view", catch(|| hn.handle_view(&view, &ctx)), &oc.exp),
+                ("bare.handle_with_ctx", catch(|| hn.handle_with_ctx(&msg, &ctx)), &oc.exp),
+            ];
+            let pops = [format!("probe {} {} {}", hex(&r.query), r.h.body_format, hex(&r.body))];
+            if four.iter().all(|(_, r, _)| r.is_ok()) {
+                let res: Vec<&Result<Message, RepeError>> = four.iter().map(|(_, r, _)| r.as_ref().unwrap()).collect();
+                // A handler has two entry points (borrowed view / owned message); which one a request reaches depends
+                // on the transport, on the route kind and on whether middleware wraps it, so "the same request yields
+                // the same response fields on every transport" needs them to agree (after the dispatch layer's echo).
+                let norm: Vec<String> = res.iter().map(|x| normalised(x, &r.query)).collect();
+                if norm[0] != norm[1] || norm[2] != norm[3] || (gate.is_none() && norm[0] != norm[2]) {
+                    let (i, j) = if norm[2] != norm[3] { (2, 3) } else if norm[0] != norm[1] { (0, 1) } else { (0, 2) };
+                    out.oracle_fail("dispatch.entry_points_disagree", &format!("route {:?} ({}), body format {}, body {}: {} gives {} but {} gives {}", path, rt.hk.token(), r.h.body_format, clip(&hex(&r.body)), four[i].0, clip(&norm[i]), four[j].0, clip(&norm[j])), &pops);
+                }
+                // every entry point against the independent expectation (decoding rule of the kind + registered closure)
+                for (which, x, exp) in four.iter() {
+                    let (ec, bf, body) = outcome_fields(x.as_ref().unwrap());
+                    if let Some(what) = exp_mismatch(exp, ec, bf, &body) {
+                        let sig = if oc.dec == DecClass::Bad && gate.is_none() { "dispatch.decode.undecodable_body".to_string() } else if oc.dec == DecClass::Fmt && gate.is_none() { "dispatch.decode.unacceptable_format".to_string() } else { format!("dispatch.expect.{}.{}", rt.hk.token(), what.split(':').next().unwrap()) };
+                        out.oracle_fail(&sig, &format!("route {:?} ({}) via {}: body format {}, body {} ({:?}): {}", path, rt.hk.token(), which, r.h.body_format, clip(&hex(&r.body)), oc.dec, what), &pops);
+                        break;
                     }
-                    if matches!(path, "/json" | "/json_b" | "/json_ctx" | "/json_ctx_b") && (r.h.body_format == 2 || r.h.body_format == 3) {
-                        let decodable = serde_json::from_slice::<Value>(&r.body).is_ok();
-                        for (which, res) in [("handle_view", a), ("handle_with_ctx", b)] {
-                            let accepted = match res { Ok(m) => m.header.ec != ErrorCode::ParseError as u32, Err(e) => e.to_error_code() != ErrorCode::ParseError };
-                            let wants_fail = serde_json::from_slice::<Value>(&r.body).ok().map(|v| v.get("fail").is_some()).unwrap_or(false);
-                            if accepted != decodable && !wants_fail {
-                                out.oracle_fail("dispatch.decode.undecodable_body", &format!("route {:?} via {}: body format {}, body {} is {} JSON but the handler {} it", path, which, r.h.body_format, hex(&r.body), if decodable { "valid" } else { "not" }, if accepted { "accepted" } else { "refused with ParseError" }), &[format!("probe {}", hex(&r.query))]);
+                }
+                // shape of a built-in handler's success response (model: `builtinResponse`): request id, known query
+                // format or raw binary, ec 0, no query, consistent lengths
+                if rt.hk != HK::Custom && gate.is_none() {
+                    for x in [res[2], res[3]] {
+                        if let Ok(m) = x {
+                            let hh = &m.header;
+                            if hh.ec == 0 && !(hh.id == r.h.id && hh.query_format == 1 && hh.notify == 0 && hh.reserved == 0 && hh.version == 1 && m.query.is_empty() && hh.body_length == m.body.len() as u64 && hh.length == 48 + m.body.len() as u64) {
+                                out.oracle_fail("dispatch.builtin_response_shape", &format!("request id {}: a built-in handler's success response does not have the response_header_builder shape", r.h.id), &pops);
                             }
                         }
                     }
                 }
-                match (v, o) {
-                    (Ok(v), Ok(o)) => (hout_str(&v), hout_str(&o)),
-                    _ => ("panic".to_string(), "panic".to_string()),
-                }
+                let s: Vec<String> = res.iter().map(|x| hout_str(x)).collect();
+                toks = (s[0].clone(), s[1].clone(), if s[2] == s[0] { "=".into() } else { s[2].clone() }, if s[3] == s[1] { "=".into() } else { s[3].clone() });
+            } else {
+                // handler panics are C16's subject: keep them out of C03 observations
+                out.count("dispatch.probe_panicked_skipped");
+                toks = ("panic".into(), "panic".into(), "=".into(), "=".into());
             }
-            _ => ("none".to_string(), "none".to_string()),
-        };
-        if hv == "panic" {
-            // handler panics are C16's subject: keep them out of C03 sequences
-            out.count("dispatch.probe_panicked_skipped");
+            kv = format!("k={} bl={} dec={} cl={}", rt.hk.token(), rt.blocking as u8, match oc.dec { DecClass::Ok => "ok", DecClass::Bad => "bad", DecClass::Fmt => "fmt" }, oc.cl);
+            out.count(&format!("dispatch.kind.{}.{}", rt.hk.token(), match (&oc.exp, oc.dec) { (_, DecClass::Bad) => "undecodable", (_, DecClass::Fmt) => "bad_format", (Exp::Ec(_), _) => "closure_err", (Exp::Stateful, _) => "stateful", _ => "ok" }));
+            events_w += 1;
+            *dispatched_paths.entry(hex(&r.query)).or_insert(0) += 1;
+            if let Some(name) = oc.closure {
+                events_n += 1;
+                *closures_n.entry(name.to_string()).or_insert(0) += 1;
+                if gate.is_none() { *closures_w.entry(name.to_string()).or_insert(0) += 1; }
+            }
+            if r.query == b"/reg/f" && !r.body.is_empty() && oc.dec == DecClass::Ok {
+                // a registered function is called (once) when the request carries a decodable body
+                events_n += 1;
+                *closures_n.entry("/reg/f".into()).or_insert(0) += 1;
+                if gate.is_none() { *closures_w.entry("/reg/f".into()).or_insert(0) += 1; }
+            }
+            exp_entry = Some((rt, exp_w, oc.exp.clone(), gate.is_some()));
         }
-        let dispatches = path_ok && found;
+        exps.push(exp_entry);
         if r.h.notify != 1 {
             expect_ids.push(r.h.id);
         }
-        if dispatches {
-            expect_dispatch += 1;
-            *dispatched_paths.entry(hex(&r.query)).or_insert(0) += 1;
-        }
         is_off.push(off && dispatches);
         out.count(&format!("dispatch.route.{}", if r.h.version != 1 { "bad_version" } else if r.h.query_format != 1 { "bad_qfmt" } else if !utf8(&r.query) { "non_utf8" } else if !found { "not_found" } else if off { "offreader" } else { "inline" }));
-        out.count(&format!("dispatch.notify.{}", r.h.notify));
-        if hv.starts_with("err:") { out.count(&format!("dispatch.handler_err.{}", hv.split(':').nth(1).unwrap())); }
-        op_lines.push(format!("req {} {} {} {} {} {} {} {}", idx, r.h.fields(), hex(&r.query), hex(&r.body), found as u8, if off { "o" } else { "i" }, hv, ho));
-        if pressure { op_lines.last_mut().unwrap().push_str(" P"); }
+        out.count(&format!("dispatch.notify.{}", match r.h.notify { 0 => "0", 1 => "1", _ => "other" }));
+        if toks.0.starts_with("err:") { out.count(&format!("dispatch.handler_err.{}", toks.0.split(':').nth(1).unwrap())); }
+        op_lines.push(format!("req {} {} {} {} {} {} {} {} {} {} {}{}", idx, r.h.fields(), hex(&r.query), hex(&r.body), found as u8, if off { "o" } else { "i" }, toks.0, toks.1, toks.2, toks.3, kv, if r.ping { " pg=1" } else { "" }));
     }
-    // real servers
-    let snap = |c: &Counters| c.started.lock().unwrap().clone();
+    let inv_line = format!("inv {}.inv chunk={} pressure={}", seqno, params.chunk, pressure as u8);
+    // real servers, all endpoints at once (each has its own server, router and counters)
     let read_delay = if pressure { Duration::from_millis(2) } else { Duration::ZERO };
-    let mut runs: Vec<(&'static str, Kind, TransportRun, BTreeMap<String, u64>)> = Vec::new();
-    for ep in &sv.eps {
-        // the single-slot WebSocket server is only interesting under pressure (and slow otherwise)
-        if ep.name == "wsb" { continue; }
-        if ep.name == "wsp" && !pressure { continue; }
-        if ep.name == "ws" && pressure { continue; }
-        let base = snap(&ep.counters);
-        let t = match ep.kind {
-            Kind::Tcp => run_tcp(ep, reqs, &expect_ids, expect_dispatch, read_delay),
-            Kind::Ws => run_ws(sv, ep, reqs, &expect_ids, expect_dispatch, read_delay),
-        };
-        let now = ep.counters.started.lock().unwrap().clone();
-        let endk = hex(b"/__end");
-        let d: BTreeMap<String, u64> = now.iter().filter(|(k, _)| **k != endk).map(|(k, v)| (k.clone(), v - base.get(k).copied().unwrap_or(0))).filter(|(_, v)| *v > 0).collect();
-        // the two WebSocket servers share the observation column `ws`
-        runs.push((if ep.kind == Kind::Ws { "ws" } else { ep.name }, ep.kind, t, d));
-    }
-    let all_ops: Vec<String> = op_lines.clone();
+    let extra_x = !pressure && seqno % 8 == 3 && reqs.len() <= 16;
+    let chosen: Vec<&Endpoint> = sv.eps.iter().filter(|ep| match ep.name {
+        "wsb" => false,
+        "wsp" => pressure, // the single-slot WebSocket server is only interesting under pressure (and slow otherwise)
+        "ws" => !pressure,
+        "tcpx" => extra_x, // Nagle on: slow, a few short sequences only
+        _ => true,
+    }).collect();
+    let runs: Vec<EpRun> = std::thread::scope(|sc| {
+        let hs: Vec<_> = chosen.iter().map(|ep| {
+            let (ids, ep) = (&expect_ids, *ep);
+            sc.spawn(move || run_on(sv, ep, reqs, ids, events_w, events_n, read_delay, params.chunk))
+        }).collect();
+        hs.into_iter().map(|h| h.join().expect("endpoint runner")).collect()
+    });
+    let mut all_ops: Vec<String> = op_lines.clone();
+    all_ops.push(inv_line.clone());
     let pfx = if pressure { "dispatch.pressure" } else { "dispatch" };
     // ---- direct oracles -----------------------------------------------------------------
-    for (name, kind, t, d) in &runs {
+    for run in &runs {
+        let (name, t) = (run.ep.name, &run.t);
+        let name = if name == "wsp" { "ws" } else { name };
         for p in &t.problems {
             out.oracle_fail(&format!("{}.{}.{}", pfx, name, p.split(':').next().unwrap()), &format!("transport {}: {}", name, p), &all_ops);
         }
@@ -679,69 +1404,145 @@ fn run_sequence(out: &mut Out, sv: &Servers, probe: &Router, seqno: usize, reqs:
             if !reqs.iter().any(|r| r.h.id == f.h.id) {
                 out.oracle_fail(&format!("{}.{}.unknown_id", pfx, name), &format!("response with id {} matches no request", f.h.id), &all_ops);
             }
+            if f.h.notify != 0 || f.h.version != 1 {
+                out.oracle_fail(&format!("{}.{}.response_header", pfx, name), &format!("response id {}: notify {} version {}", f.h.id, f.h.notify, f.h.version), &all_ops);
+            }
         }
-        // handler invoked exactly once per dispatched request, never for a rejected one
-        if *d != dispatched_paths && t.problems.is_empty() {
-            out.oracle_fail(&format!("{}.{}.invocations", pfx, name), &format!("handler invocations {:?} != dispatched requests {:?}", d, dispatched_paths), &all_ops);
+        // handler invoked exactly once per dispatched request, never for a rejected one: at the pipeline (wrapped
+        // routers) and at the registered closure (every router; only requests whose body decodes reach it)
+        if run.ep.wrapped && run.started != dispatched_paths && t.problems.is_empty() {
+            out.oracle_fail(&format!("{}.{}.invocations", pfx, name), &format!("handler invocations {:?} != dispatched requests {:?}", run.started, dispatched_paths), &all_ops);
+        }
+        let want_c = if run.ep.wrapped { &closures_w } else { &closures_n };
+        if run.closures != *want_c && t.problems.is_empty() {
+            out.oracle_fail(&format!("{}.{}.closure_invocations", pfx, name), &format!("registered closures ran {:?} but the dispatched, decodable requests are {:?}", run.closures, want_c), &all_ops);
         }
         // arrival order for inline requests
         let pos: BTreeMap<u64, usize> = t.frames.iter().enumerate().map(|(i, f)| (f.h.id, i)).collect();
         let mut last: Option<usize> = None;
         for (k, r) in reqs.iter().enumerate() {
-            if *kind == Kind::Ws && is_off[k] { continue; }
+            if run.ep.kind == Kind::Ws && is_off[k] { continue; }
             if let Some(p) = pos.get(&r.h.id) {
                 if let Some(l) = last { if *p < l { out.oracle_fail(&format!("{}.{}.order", pfx, name), &format!("inline responses out of arrival order (request id {})", r.h.id), &all_ops); break; } }
                 last = Some(*p);
             }
         }
-    }
-    // same response fields (incl. error bodies) on every transport
-    let healthy = runs.iter().all(|(_, _, t, _)| t.problems.is_empty());
-    for r in reqs {
-        let got: Vec<Option<RawFrame>> = runs.iter().map(|(_, _, t, _)| t.frames.iter().find(|f| f.h.id == r.h.id).cloned()).collect();
-        if healthy && got.iter().any(|g| *g != got[0]) {
-            let names: Vec<&str> = runs.iter().zip(got.iter()).filter(|(_, g)| **g != got[0]).map(|(r, _)| r.0).collect();
-            out.oracle_fail(&format!("{}.transports_disagree.{}", pfx, names.join("+")), &format!("request id {}: the response differs between tcp and {:?}", r.h.id, names), &all_ops);
+        // every response against the independent expectation, and the echo rule
+        for (k, r) in reqs.iter().enumerate() {
+            let Some(f) = t.frames.iter().find(|f| f.h.id == r.h.id) else { continue };
+            let mut want_q: &[u8] = &r.query;
+            if let Some((rt, ew, en, gated)) = &exps[k] {
+                let exp = if run.ep.wrapped { ew } else { en };
+                if let Some(what) = exp_mismatch(exp, f.h.ec, f.h.body_format, if f.h.ec == 0 { &f.body[..] } else { &[][..] }) {
+                    out.oracle_fail(&format!("{}.{}.expect.{}.{}", pfx, name, rt.hk.token(), what.split(':').next().unwrap()), &format!("request id {} to {:?}: {}", r.h.id, String::from_utf8_lossy(&r.query), what), &all_ops);
+                }
+                if rt.hk == HK::Custom && !(run.ep.wrapped && *gated) && f.h.ec == 0 && r.body.first() != Some(&b'e') { want_q = OWN_QUERY; }
+            } else {
+                // rejected at routing: the specified code
+                let want = if r.h.version != 1 { 1 } else if r.h.query_format != 1 || !utf8(&r.query) { 3 } else { 6 };
+                if f.h.ec != want {
+                    out.oracle_fail(&format!("{}.{}.reject_code", pfx, name), &format!("request id {} must be rejected with code {} but the response reports {}", r.h.id, want, f.h.ec), &all_ops);
+                }
+            }
+            if f.query != want_q {
+                out.oracle_fail(&format!("{}.{}.query_echo", pfx, name), &format!("request id {}: response query {} is not {}", r.h.id, clip(&hex(&f.query)), clip(&hex(want_q))), &all_ops);
+            }
         }
-        if let Some(f) = &got[0] {
-            if f.h.id != r.h.id { out.oracle_fail("dispatch.id", "response id differs", &all_ops); }
-            if f.query != r.query && f.query != b"/own/query" { out.oracle_fail("dispatch.query_echo", &format!("request id {}: response query is neither the request's nor the handler's own", r.h.id), &all_ops); }
+    }
+    // same response fields (incl. error bodies) on every transport: within the wrapped and the bare group always,
+    // across the groups unless the gate middleware answered
+    let healthy = runs.iter().all(|r| r.t.problems.is_empty());
+    if healthy {
+        for (k, r) in reqs.iter().enumerate() {
+            let got: Vec<Option<&RawFrame>> = runs.iter().map(|run| run.t.frames.iter().find(|f| f.h.id == r.h.id)).collect();
+            let gated = exps[k].as_ref().map(|e| e.3).unwrap_or(false);
+            let ref_of = |wrapped: bool| runs.iter().position(|x| x.ep.wrapped == wrapped).unwrap();
+            let mut differ: Vec<&str> = Vec::new();
+            for (i, run) in runs.iter().enumerate() {
+                let base = if gated { ref_of(run.ep.wrapped) } else { 0 };
+                // `tcpx` serves only some sequences, so its registry / struct state lags behind the others'
+                let stateful = matches!(&exps[k], Some((rt, _, _, _)) if matches!(rt.hk, HK::Registry | HK::Struct));
+                if got[i] != got[base] && !(stateful && run.ep.name == "tcpx") { differ.push(run.ep.name); }
+            }
+            if !differ.is_empty() {
+                out.oracle_fail(&format!("{}.transports_disagree.{}", pfx, differ.join("+")), &format!("request id {}: the response on {:?} differs from the one on {}", r.h.id, differ, runs[0].ep.name), &all_ops);
+            }
         }
     }
     // ---- observation lines -------------------------------------------------------------------
+    let by_col = |c: &str| runs.iter().find(|r| r.col == c);
     for (k, r) in reqs.iter().enumerate() {
         let show = |t: &TransportRun| t.frames.iter().find(|f| f.h.id == r.h.id).map(show_resp).unwrap_or_else(|| "noresp".into());
         let idx = format!("{}.{}", seqno, k);
-        let nontrivial = runs[0].2.frames.iter().any(|f| f.h.id == r.h.id && f.h.ec == 0);
-        let cols: Vec<String> = runs.iter().map(|(n, _, t, _)| format!("{}={}", n, show(t))).collect();
+        let nontrivial = runs[0].t.frames.iter().any(|f| f.h.id == r.h.id && f.h.ec == 0);
+        let mut cols: Vec<String> = COLUMNS.iter().map(|c| format!("{}={}", c, by_col(c).map(|r| show(&r.t)).unwrap_or_else(|| "absent".into()))).collect();
+        // `expn`: the error code a bare built-in handler's decoding decision leads to (model: `builtinHandle`)
+        let expn = match (&exps[k], by_col("tcpn").and_then(|run| run.t.frames.iter().find(|f| f.h.id == r.h.id))) {
+            (Some((_, _, en, _)), Some(f)) if !matches!(en, Exp::Stateful) => f.h.ec.to_string(),
+            (Some(_), Some(_)) => "*".to_string(),
+            _ => "-".to_string(),
+        };
+        cols.push(format!("expn={}", expn));
         out.case(&op_lines[k], &format!("{} {}", idx, cols.join(" ")), nontrivial);
     }
     let fmt = |d: &BTreeMap<String, u64>| d.iter().map(|(k, v)| format!("{}:{}", k, v)).collect::<Vec<_>>().join(",");
-    let cols: Vec<String> = runs.iter().map(|(n, _, _, d)| format!("{}=[{}]", n, fmt(d))).collect();
-    out.case(&format!("inv {}.inv", seqno), &format!("{}.inv {}", seqno, cols.join(" ")), false);
+    let cols: Vec<String> = COLUMNS.iter().take(5).map(|c| format!("{}=[{}]", c, by_col(c).map(|r| fmt(&r.started)).unwrap_or_default())).collect();
+    out.case(&inv_line, &format!("{}.inv {}", seqno, cols.join(" ")), false);
     if pressure { out.count("dispatch.pressure_sequences"); }
+    if params.chunk != 0 { out.count("dispatch.chunked_sequences"); }
+    // ---- a connection that has served other requests answers like a fresh one ---------------------
+    if !pressure && seqno % 4 == 1 && healthy {
+        let pick = reqs.iter().enumerate().rev().find(|(k, r)| *k > 0 && r.h.notify != 1 && r.query != b"/slow" && !matches!(&exps[*k], Some((rt, _, _, _)) if matches!(rt.hk, HK::Registry | HK::Struct)));
+        if let Some((_, r)) = pick {
+            let one = [r.clone()];
+            let dispatched = exps[reqs.iter().position(|x| x.h.id == r.h.id).unwrap()].is_some() as u64;
+            for run in &runs {
+                let Some(seen) = run.t.frames.iter().find(|f| f.h.id == r.h.id) else { continue };
+                let ev = if run.ep.wrapped { dispatched } else { 0 };
+                // on a bare router the closure may or may not run; waiting for the response is enough (inline or not)
+                let fresh = match run.ep.kind { Kind::Tcp => run_tcp(run.ep, &one, &[r.h.id], ev, Duration::ZERO, 0), Kind::Ws => run_ws(sv, run.ep, &one, &[r.h.id], ev, Duration::ZERO) };
+                let quiet: Vec<&String> = fresh.problems.iter().filter(|p| *p != "handlers-not-finished").collect();
+                if quiet.is_empty() && fresh.frames.first() != Some(seen) {
+                    let mut ops = all_ops.clone();
+                    ops.push(format!("fresh {}", r.h.id));
+                    out.oracle_fail(&format!("dispatch.{}.reused_connection_differs", run.ep.name), &format!("request id {}: the response inside the pipelined sequence differs from the response to the same request sent alone on a fresh connection", r.h.id), &ops);
+                }
+                out.count("dispatch.fresh_vs_reused");
+            }
+        }
+    }
 }
 
-/// Teardown scenario: a pipelined burst of requests with sizeable responses followed by an unusable (text) frame, the
-/// client reading only afterwards. The well-framed requests were all read and dispatched before the bad frame, so
-/// each must still get its one response before the connection closes.
-fn burst_then_garbage(out: &mut Out, sv: &Servers, n: usize, seqno: usize) {
+// ------------------------------------------------------------------------------------------
+// scenarios
+// ------------------------------------------------------------------------------------------
+/// Teardown scenario (WebSocket): a pipelined burst of inline requests with sizeable responses followed by an unusable
+/// frame, the client reading only afterwards. The well-framed requests were all read and dispatched before the bad
+/// frame, so each must still get its one response before the connection closes.
+/// `garbage`: 0 text frame, 1 binary frame shorter than a header, 2 binary frame with a wrong magic, 3 a well-formed
+/// frame followed by a stray byte in the same WebSocket message.
+fn burst_then_garbage(out: &mut Out, sv: &Servers, epname: &str, n: usize, garbage: u64, seqno: usize) {
     use tokio_tungstenite::tungstenite::Message as WsMsg;
-    let ep = sv.eps.iter().find(|e| e.name == "wsp").unwrap();
-    let url = format!("ws://{}/repe", ep.addr);
+    let ep = sv.ep(epname);
     let body = format!("\"{}\"", "y".repeat(120_000)).into_bytes();
     let got: Option<Vec<u64>> = sv.rt.block_on(async {
-        let (mut ws, _) = tokio_tungstenite::connect_async(&url).await.ok()?;
+        let mut ws = ws_connect(ep.addr).await?;
         for i in 0..n {
             let f = RawFrame::request(920_000 + i as u64, false, 1, b"/json", 2, &body).to_vec();
             ws.send(WsMsg::Binary(f)).await.ok()?;
         }
-        ws.send(WsMsg::Text("not a repe frame".into())).await.ok()?;
+        let bad = match garbage {
+            0 => WsMsg::Text("not a repe frame".into()),
+            1 => WsMsg::Binary(vec![7u8; 16]),
+            2 => { let mut f = RawFrame::request(1, false, 1, b"/json", 2, b"1"); f.h.spec = 0x1508; WsMsg::Binary(f.to_vec()) }
+            _ => { let mut v = RawFrame::request(1, false, 1, b"/json", 2, b"1").to_vec(); v.push(0); WsMsg::Binary(v) }
+        };
+        ws.send(bad).await.ok()?;
         tokio::time::sleep(Duration::from_millis(150)).await;
         let mut ids = Vec::new();
         let t = Instant::now();
-        while t.elapsed() < Duration::from_secs(15) {
-            match tokio::time::timeout(Duration::from_secs(3), ws.next()).await {
+        while t.elapsed() < Duration::from_secs(20) {
+            match tokio::time::timeout(Duration::from_secs(4), ws.next()).await {
                 Ok(Some(Ok(WsMsg::Binary(b)))) => { if let Some(h) = RawHeader::parse(&b) { ids.push(h.id); } }
                 Ok(Some(Ok(_))) => {}
                 _ => break,
@@ -749,17 +1550,98 @@ fn burst_then_garbage(out: &mut Out, sv: &Servers, n: usize, seqno: usize) {
         }
         Some(ids)
     });
-    let ops = vec![format!("teardown {} {}", seqno, n)];
+    let ops = vec![format!("teardown {} {} {} {}", seqno, epname, n, garbage)];
     match got {
         None => out.count("dispatch.teardown.connect_failed"),
         Some(ids) => {
             let want: Vec<u64> = (0..n).map(|i| 920_000 + i as u64).collect();
             if ids != want {
-                out.oracle_fail("dispatch.teardown.responses_lost", &format!("{} well-framed requests were sent before an unusable frame; responses received: {:?}", n, ids), &ops);
+                out.oracle_fail("dispatch.teardown.responses_lost", &format!("{}: {} well-framed requests were sent before an unusable frame (kind {}); responses received: {:?}", epname, n, garbage, ids), &ops);
             } else {
-                out.count("dispatch.teardown.ok");
+                out.count(&format!("dispatch.teardown.ok.{}", garbage));
             }
         }
+    }
+}
+
+/// Teardown on the TCP transports: a burst of requests and then bytes that are no frame (wrong magic), in one write.
+/// Every response was written before the server read the bad bytes, so all must arrive, in order, before EOF.
+fn tcp_burst_then_garbage(out: &mut Out, sv: &Servers, epname: &str, n: usize, seqno: usize) {
+    let ep = sv.ep(epname);
+    let ops = vec![format!("tcpteardown {} {} {}", seqno, epname, n)];
+    let Ok(mut s) = std::net::TcpStream::connect(ep.addr) else { out.count("dispatch.teardown.connect_failed"); return };
+    let mut wire = Vec::new();
+    for i in 0..n {
+        wire.extend(RawFrame::request(930_000 + i as u64, i % 3 == 2, 1, b"/json", 2, format!("[{}]", i).as_bytes()).to_vec());
+    }
+    // exactly one header's worth of bytes, so the server has read everything when it gives up (a close with unread
+    // bytes would reset the connection and could discard responses still in flight)
+    let mut bad = RawFrame::request(1, false, 1, b"", 2, b"");
+    bad.h.spec = 0x0715;
+    wire.extend(bad.to_vec());
+    if s.write_all(&wire).is_err() { out.count("dispatch.teardown.connect_failed"); return; }
+    let bytes = net::drain(&mut s, 1 << 24, Duration::from_secs(10));
+    let (frames, tail) = RawFrame::split_stream(&bytes);
+    let ids: Vec<u64> = frames.iter().map(|f| f.h.id).collect();
+    let want: Vec<u64> = (0..n).filter(|i| i % 3 != 2).map(|i| 930_000 + i as u64).collect();
+    if ids != want || !tail.is_empty() {
+        out.oracle_fail("dispatch.teardown.tcp_responses_lost", &format!("{}: {} requests then garbage in one write; responses received {:?} (+{} stray bytes), expected {:?}", epname, n, ids, tail.len(), want), &ops);
+    } else {
+        out.count("dispatch.teardown.tcp_ok");
+    }
+}
+
+/// Requests that share one id (0, a small one, u64::MAX…) on one connection: each still gets its own response, in
+/// arrival order on the inline paths (bodies tell them apart).
+fn dup_ids(out: &mut Out, sv: &Servers, id: u64, n: usize, seqno: usize) {
+    let ops = vec![format!("dupids {} {} {}", seqno, id, n)];
+    let reqs: Vec<ReqSpec> = (0..n).map(|k| {
+        let body = format!("[{}]", k).into_bytes();
+        let f = RawFrame::request(id, false, 1, b"/json", 2, &body);
+        ReqSpec { h: f.h, query: b"/json".to_vec(), body, ping: false }
+    }).collect();
+    let want: Vec<Vec<u8>> = (0..n).map(|k| serde_json::to_vec(&json!({"route": "/json", "got": [k]})).unwrap()).collect();
+    for ep in sv.eps.iter().filter(|e| !matches!(e.name, "wsb" | "wsp" | "tcpx")) {
+        let ev = n as u64;
+        let t = match ep.kind { Kind::Tcp => run_tcp(ep, &reqs, &[id], ev, Duration::ZERO, 0), Kind::Ws => run_ws(sv, ep, &reqs, &[id], ev, Duration::ZERO) };
+        let got: Vec<Vec<u8>> = t.frames.iter().map(|f| f.body.clone()).collect();
+        if !t.problems.is_empty() || got != want || t.frames.iter().any(|f| f.h.id != id || f.h.ec != 0) {
+            out.oracle_fail(&format!("dispatch.{}.duplicate_ids", ep.name), &format!("{} requests with id {}: got {} responses {:?} problems {:?}", n, id, t.frames.len(), t.frames.iter().map(|f| (f.h.id, f.h.ec, String::from_utf8_lossy(&f.body).into_owned())).collect::<Vec<_>>(), t.problems), &ops);
+            return; // one failing input is enough; every further endpoint would wait out its watchdog
+        } else {
+            out.count("dispatch.dup_ids.ok");
+        }
+    }
+}
+
+/// Off-reader handlers that panic (three payload kinds) between ordinary requests on one WebSocket connection.
+/// C03 says nothing about a panicking handler's own response (C16 does); asserted here: every *other* request still
+/// gets exactly one response, inline ones in order, a notify none, and a panicking request at most one.
+fn panic_offreader(out: &mut Out, sv: &Servers, epname: &str, seqno: usize) {
+    let ep = sv.ep(epname);
+    let ops = vec![format!("panicws {} {}", seqno, epname)];
+    let mk = |id: u64, notify: bool, path: &[u8], body: &[u8]| {
+        let f = RawFrame::request(id, notify, 1, path, 2, body);
+        ReqSpec { h: f.h, query: path.to_vec(), body: body.to_vec(), ping: false }
+    };
+    let b = 940_000u64;
+    let reqs = vec![
+        mk(b + 1, false, b"/json", b"1"), mk(b + 2, false, b"/panic_b", b"{\"p\":\"str\"}"), mk(b + 3, false, b"/json_b", b"3"), mk(b + 4, true, b"/panic_b", b"{\"p\":\"string\"}"),
+        mk(b + 5, false, b"/panic_b", b"{\"p\":\"any\"}"), mk(b + 6, false, b"/json", b"6"), mk(b + 7, false, b"/panic_b", b"{\"p\":\"calm\"}"),
+    ];
+    let calm = [b + 1, b + 3, b + 6, b + 7];
+    // wrapped: pipeline exits are counted only for handlers that return; bare: closure entries, all seven
+    let ev = if ep.wrapped { 4 } else { 7 };
+    let t = run_ws(sv, ep, &reqs, &calm, ev, Duration::ZERO);
+    let ids: Vec<u64> = t.frames.iter().map(|f| f.h.id).collect();
+    let count = |id: u64| ids.iter().filter(|x| **x == id).count();
+    let pos = |id: u64| ids.iter().position(|x| *x == id);
+    let ok = t.problems.is_empty() && calm.iter().all(|id| count(*id) == 1) && count(b + 4) == 0 && count(b + 2) <= 1 && count(b + 5) <= 1 && pos(b + 1) < pos(b + 6);
+    if !ok {
+        out.oracle_fail(&format!("dispatch.{}.panic_disturbs_other_requests", epname), &format!("responses {:?} problems {:?}", ids, t.problems), &ops);
+    } else {
+        out.count("dispatch.panic_offreader.ok");
+        out.add("dispatch.panic_offreader.panicking_answered", (count(b + 2) + count(b + 5)) as u64);
     }
 }
 
@@ -770,69 +1652,98 @@ fn gen_pressure(r: &mut Rng, base_id: u64) -> Vec<ReqSpec> {
     let mut v = Vec::new();
     for k in 0..n {
         let id = base_id + k as u64 + 1;
-        let spec = match r.below(5) {
+        let mk = |f: RawFrame| ReqSpec { h: f.h, query: f.query, body: f.body, ping: false };
+        let spec = match r.below(6) {
             0 | 1 => {
                 // big echo through an inline JSON route
                 let len = *r.pick(&[20_000usize, 70_000, 150_000]);
                 let body = format!("\"{}\"", "x".repeat(len)).into_bytes();
-                let f = RawFrame::request(id, false, 1, b"/json", 2, &body);
-                ReqSpec { h: f.h, query: b"/json".to_vec(), body }
+                mk(RawFrame::request(id, false, 1, b"/json", 2, &body))
             }
             2 => {
                 // rejected: unknown path / bad version / raw-binary query format
                 let mut f = RawFrame::request(id, false, 1, b"/nope", 2, b"{}");
                 match r.below(3) { 0 => {}, 1 => f.h.version = 2, _ => f.h.query_format = 0 }
-                ReqSpec { h: f.h, query: b"/nope".to_vec(), body: b"{}".to_vec() }
+                mk(f)
             }
-            3 => {
-                let f = RawFrame::request(id, false, 1, b"/json_b", 2, b"{\"a\":1}");
-                ReqSpec { h: f.h, query: b"/json_b".to_vec(), body: b"{\"a\":1}".to_vec() }
-            }
-            _ => {
-                let f = RawFrame::request(id, r.chance(1, 4), 1, b"/json", 2, b"[1,2]");
-                ReqSpec { h: f.h, query: b"/json".to_vec(), body: b"[1,2]".to_vec() }
-            }
+            3 => mk(RawFrame::request(id, false, 1, b"/json_b", 2, b"{\"a\":1}")),
+            // a small typed request right behind a large frame: the connection's read buffer is reused
+            4 => mk(RawFrame::request(id, false, 1, b"/typed", *r.pick(&[2u16, 3]), b"{\"a\":4,\"b\":\"s\"}")),
+            _ => mk(RawFrame::request(id, r.chance(1, 4), 1, b"/json", 2, b"[1,2]")),
         };
         v.push(spec);
     }
     v
 }
 
+fn kv<'a>(line: &'a str, key: &str) -> Option<&'a str> {
+    words(line).into_iter().find_map(|w| w.strip_prefix(key).and_then(|r| r.strip_prefix('=')))
+}
+
 fn main() {
     let args = Args::parse();
     quiet_panics();
     let mut out = Out::new(&args.out);
-    out.rule = "pipelined request sequences (length 1..64) over registered/unregistered/non-UTF-8 paths, every built-in handler kind (json, typed, ctx, bulk slice, borrowed slice, registry mount, struct mount, custom erased, blocking variants; all behind a counting middleware), versions {1,0,2,255}, notify {0,1,2,255}, query formats {1,0,2,65535}, body formats 0..4/999 with well-formed, malformed, BEVE, typed-array, random and empty bodies; sent raw to the real Server, AsyncServer and WebSocketServer. Distinct by op line; non-trivial = answered with ec 0".into();
+    out.rule = "pipelined request sequences (length 1..64) over registered (ASCII and non-ASCII) / unregistered / non-UTF-8 / very long paths, every built-in handler kind (json, typed with each TypedResponse format, ctx, bulk slice, borrowed slice incl. the aligned wire form, JsonTypedHandler adapter, registry mounts, struct mounts over Mutex and RwLock, custom erased with own / empty response query, blocking variants), each served by routers behind a counting + gate middleware AND by bare routers, versions {1,0,2,3,127,128,254,255}, notify {0,1,2,3,127..255,random}, query formats {1,0,2,3,255..65535}, body formats 0..5/255/256/999/4095/4096/65535 with bodies tailored to the kind (boundary integers, empty / non-ASCII / 70 KiB strings, 0..1000-element arrays), malformed, truncated, wrong-typed, non-UTF-8, random and empty bodies, ids incl. 0 / 2^32 / 2^63 / u64::MAX, TCP writes in chunks of 0/1/7/48/49/1000 bytes, WebSocket pings between requests; sent raw to the real Server, AsyncServer and WebSocketServer (ten endpoints). Distinct by op line; non-trivial = answered with ec 0".into();
     let sv = start_servers();
-    let probe_c = Counters::default();
-    let probe = make_router(&probe_c);
+    let probe = Probes { wrapped: make_router(&Counters::default(), true), bare: make_router(&Counters::default(), false) };
     let mut rng = Rng::new(args.seed);
     if let Some(ops) = args.replay_ops() {
-        // replay: rebuild the request sequence from recorded op lines
+        // replay: rebuild the request sequence (or the scenario) from recorded op lines
         let mut reqs = Vec::new();
-        for l in ops.iter().filter(|l| l.starts_with("req ")) {
+        let mut params = SeqParams::default();
+        for l in &ops {
             let w = words(l);
-            let f: Vec<u64> = w[2..13].iter().map(|x| x.parse().unwrap()).collect();
-            let h = RawHeader { length: f[0], spec: f[1] as u16, version: f[2] as u8, notify: f[3] as u8, reserved: f[4] as u32, id: f[5], query_length: f[6], body_length: f[7], query_format: f[8] as u16, body_format: f[9] as u16, ec: f[10] as u32 };
-            reqs.push(ReqSpec { h, query: unhex(w[13]).unwrap(), body: unhex(w[14]).unwrap() });
+            match w.first().copied() {
+                Some("req") => {
+                    let f: Vec<u64> = w[2..13].iter().map(|x| x.parse().unwrap()).collect();
+                    let h = RawHeader { length: f[0], spec: f[1] as u16, version: f[2] as u8, notify: f[3] as u8, reserved: f[4] as u32, id: f[5], query_length: f[6], body_length: f[7], query_format: f[8] as u16, body_format: f[9] as u16, ec: f[10] as u32 };
+                    reqs.push(ReqSpec { h, query: unhex(w[13]).unwrap(), body: unhex(w[14]).unwrap(), ping: kv(l, "pg") == Some("1") });
+                }
+                Some("inv") => {
+                    params.chunk = kv(l, "chunk").and_then(|x| x.parse().ok()).unwrap_or(0);
+                    params.pressure = kv(l, "pressure") == Some("1");
+                }
+                Some("busy") => busy_pool_close(&mut out, &sv, w[2].parse().unwrap(), 0),
+                Some("teardown") => burst_then_garbage(&mut out, &sv, w[2], w[3].parse().unwrap(), w[4].parse().unwrap(), 0),
+                Some("tcpteardown") => tcp_burst_then_garbage(&mut out, &sv, w[2], w[3].parse().unwrap(), 0),
+                Some("dupids") => dup_ids(&mut out, &sv, w[2].parse().unwrap(), w[3].parse().unwrap(), 0),
+                Some("panicws") => panic_offreader(&mut out, &sv, w[2], 0),
+                Some("probe") | Some("lookup") => {
+                    // a probe-level failure: re-run the one request as a sequence of its own
+                    let q = unhex(w[1]).unwrap();
+                    let (bf, body) = if w.len() >= 4 { (w[2].parse().unwrap(), unhex(w[3]).unwrap()) } else { (2u16, Vec::new()) };
+                    let f = RawFrame::request(1, false, 1, &q, bf, &body);
+                    reqs.push(ReqSpec { h: f.h, query: q, body, ping: false });
+                }
+                _ => {}
+            }
         }
-        let pressure = ops.iter().any(|l| l.starts_with("req ") && l.ends_with(" P"));
-        run_sequence(&mut out, &sv, &probe, 0, &reqs, pressure);
+        if !reqs.is_empty() {
+            run_sequence(&mut out, &sv, &probe, 0, &reqs, params);
+        }
     } else {
-        let nseq = if args.thorough() { 1500 } else { 120 };
+        let nseq = if args.thorough() { 1500 } else { 110 };
         for s in 0..nseq {
+            if out.oracle_failures >= 12 {
+                break; // a broken tree: enough failing inputs, do not wait out every watchdog
+            }
             let len = match rng.below(6) { 0 => 1, 1 => rng.range(2, 4), 2 | 3 => rng.range(5, 16), 4 => rng.range(17, 40), _ => rng.range(41, 64) } as usize;
-            let reqs: Vec<ReqSpec> = (0..len).map(|k| gen_request(&mut rng, (s as u64) * 1000 + k as u64 + 1)).collect();
+            let mut used = HashSet::new();
+            let reqs: Vec<ReqSpec> = (0..len).map(|k| { let id = gen_id(&mut rng, s as u64, k as u64, &mut used); gen_request(&mut rng, id) }).collect();
             let pressure = s % 8 == 7;
             let reqs = if pressure { gen_pressure(&mut rng, (s as u64) * 1000) } else { reqs };
-            run_sequence(&mut out, &sv, &probe, s, &reqs, pressure);
-            if s % 16 == 5 {
-                let k = rng.range(3, 8) as usize;
-                busy_pool_close(&mut out, &sv, k, s);
-            }
-            if s % 16 == 9 {
-                let k = rng.range(4, 10) as usize;
-                burst_then_garbage(&mut out, &sv, k, s);
+            let chunk = if pressure || rng.chance(2, 3) { 0 } else { *rng.pick(&[1usize, 7, 48, 49, 1000]) };
+            // byte-at-a-time writes of 70 KiB bodies are slow without adding anything
+            let chunk = if chunk == 1 && reqs.iter().map(|r| r.body.len() + r.query.len()).sum::<usize>() > 20_000 { 49 } else { chunk };
+            run_sequence(&mut out, &sv, &probe, s, &reqs, SeqParams { pressure, chunk });
+            match s % 16 {
+                5 => { let k = rng.range(3, 8) as usize; busy_pool_close(&mut out, &sv, k, s); }
+                9 => { let k = rng.range(4, 10) as usize; let g = rng.below(4); burst_then_garbage(&mut out, &sv, if s % 32 == 9 { "wsp" } else { "wsn" }, k, g, s); }
+                11 => { let k = rng.range(2, 12) as usize; tcp_burst_then_garbage(&mut out, &sv, *rng.pick(&["tcp", "tcpw", "atcp", "atcpw", "tcpn", "atcpn"]), k, s); }
+                13 => { let id = *rng.pick(&[0u64, 1, 7, u64::MAX, 1 << 63]); let k = rng.range(2, 6) as usize; dup_ids(&mut out, &sv, id, k, s); }
+                3 => panic_offreader(&mut out, &sv, if s % 32 == 3 { "ws" } else { "wsn" }, s),
+                _ => {}
             }
         }
     }
